@@ -1,12 +1,13 @@
 import EV.Model.System
 
 /-!
-Inductive invariant of the status / history-cache coherence model (`EV/Model/System.lean`)
-for the current code (`Flags` default: `checkCount = true`, `batch = false`).  Core tactics only.
+Inductive invariant of the status / history-cache / tip coherence model (`EV/Model/System.lean`)
+for the current code (`batch = false`, `checkCount = true`, `recheck = true`; either value of
+`cmpLive`).  Core tactics only.
 -/
 namespace EV.System
 
-/-! ### `modifyAt`, `lookup`, `put` -/
+/-! ### `modifyAt`, `lookup`, `put`, `dictSet`, `dictErase` -/
 
 theorem getElem?_modifyAt {α : Type} (l : List α) (i : Nat) (f : α → α) (j : Nat) :
     (modifyAt l i f)[j]? = if j = i then l[j]?.map f else l[j]? := by
@@ -19,6 +20,16 @@ theorem getElem?_modifyAt {α : Type} (l : List α) (i : Nat) (f : α → α) (j
 theorem length_modifyAt {α : Type} (l : List α) (i : Nat) (f : α → α) :
     (modifyAt l i f).length = l.length := by
   simp [modifyAt]
+
+theorem getD_modifyAt {α : Type} (l : List α) (i : Nat) (f : α → α) (j : Nat) (d : α) :
+    (modifyAt l i f).getD j d = if j = i ∧ i < l.length then f (l.getD j d) else l.getD j d := by
+  simp only [List.getD_eq_getElem?_getD, getElem?_modifyAt]
+  by_cases h : j = i
+  · subst h
+    by_cases hl : j < l.length
+    · simp [hl, List.getElem?_eq_getElem hl]
+    · simp [hl]
+  · simp [h]
 
 theorem mem_modifyAt {α : Type} {l : List α} {i : Nat} {f : α → α} {a : α}
     (h : a ∈ modifyAt l i f) : a ∈ l ∨ ∃ b ∈ l, a = f b := by
@@ -39,7 +50,7 @@ theorem mem_modifyAt_of_mem {α : Type} {l : List α} (i : Nat) (f : α → α) 
   · exact Or.inr (List.mem_iff_getElem?.mpr ⟨j, by rw [getElem?_modifyAt, if_pos hji, hj]; rfl⟩)
   · exact Or.inl (List.mem_iff_getElem?.mpr ⟨j, by rw [getElem?_modifyAt, if_neg hji, hj]⟩)
 
-theorem lookup_filter (q : Nat → Bool) (k : Nat) (l : List (Nat × Nat)) :
+theorem lookup_filter {β : Type} (q : Nat → Bool) (k : Nat) (l : List (Nat × β)) :
     lookup k (l.filter (fun e => q e.1)) = if q k then lookup k l else none := by
   induction l with
   | nil => simp [lookup]
@@ -51,7 +62,7 @@ theorem lookup_filter (q : Nat → Bool) (k : Nat) (l : List (Nat × Nat)) :
       cases hq : q a <;> simp [lookup, hq, ih]
     · cases hq : q a <;> simp [lookup, ih, ha]
 
-theorem lookup_put (k' k v : Nat) (l : List (Nat × Nat)) :
+theorem lookup_put {β : Type} (k' k : Nat) (v : β) (l : List (Nat × β)) :
     lookup k' (put k v l) = if k' = k then some v else lookup k' l := by
   unfold put
   by_cases h : k' = k
@@ -59,6 +70,46 @@ theorem lookup_put (k' k v : Nat) (l : List (Nat × Nat)) :
   · have hk : ¬ k = k' := fun e => h e.symm
     rw [lookup, if_neg hk, if_neg h, lookup_filter (fun a => a != k)]
     simp [h]
+
+theorem lookup_dictSet {β : Type} (k' k : Nat) (v : β) (l : List (Nat × β)) :
+    lookup k' (dictSet k v l) = if k' = k then some v else lookup k' l := by
+  induction l with
+  | nil =>
+    by_cases h : k' = k
+    · subst h; simp [dictSet, lookup]
+    · have hk : ¬ k = k' := fun e => h e.symm
+      simp [dictSet, lookup, h, hk]
+  | cons e r ih =>
+    obtain ⟨a, b⟩ := e
+    by_cases ha : a = k
+    · subst ha
+      by_cases h : k' = a
+      · subst h; simp [dictSet, lookup]
+      · have hk : ¬ a = k' := fun e => h e.symm
+        simp [dictSet, lookup, h, hk]
+    · by_cases h : k' = k
+      · subst h
+        simp [dictSet, lookup, ha, ih]
+      · by_cases hak : a = k'
+        · simp [dictSet, lookup, ha, hak, h]
+        · simp [dictSet, lookup, ha, hak, h, ih]
+
+theorem lookup_dictErase {β : Type} (k' k : Nat) (l : List (Nat × β)) :
+    lookup k' (dictErase k l) = if k' = k then none else lookup k' l := by
+  unfold dictErase
+  rw [lookup_filter (fun a => a != k)]
+  by_cases h : k' = k <;> simp [h]
+
+theorem mem_keys_of_lookup {β : Type} {k : Nat} {v : β} {l : List (Nat × β)}
+    (h : lookup k l = some v) : k ∈ l.map Prod.fst := by
+  induction l with
+  | nil => simp [lookup] at h
+  | cons e r ih =>
+    obtain ⟨a, b⟩ := e
+    simp only [lookup] at h
+    split at h
+    · next he => simp [he]
+    · simp [ih h]
 
 theorem mem_insertSorted {x y : Nat} {l : List Nat} (h : y ∈ insertSorted x l) : y = x ∨ y ∈ l := by
   induction l with
@@ -81,150 +132,83 @@ theorem mem_eraseIdx_or {α : Type} {l : List α} {j : Nat} {t a : α} (hj : l[j
   · subst hij; rw [hi] at hj; exact Or.inl (Option.some.inj hj)
   · exact Or.inr (List.mem_eraseIdx_iff_getElem?.mpr ⟨i, hij, hi⟩)
 
-
 /-! ### The invariant -/
 
-/-- version `v` of `hx` is either current or a change of `hx` is still carried -/
-def valid (st : St) (hx v : Nat) : Prop := v = curOf st hx ∨ hx ∈ st.carrier
+/-- a full recomputation of `hx` for every subscriber is owed by the environment (still carried, or
+    handed to a `_notify_sessions` call that is suspended in `_refresh_hsub_results`) — or was lost
+    for good (`lost`: the refresh raised; `suppressed`: the stale-copy comparison) -/
+def Owed (st : St) (hx : Nat) : Prop :=
+  hx ∈ st.carrier ∨ hx ∈ st.lost ∨ hx ∈ st.suppressed ∨ ∃ r ∈ st.hreads, hx ∈ r.xs
 
-/-- a recomputation of (s, hx) is pending inside some _notify_inner -/
+/-- a re-check of `hx` through `mempool_statuses` is owed (a flip not yet followed by a
+    height-changing notification, or taken over by one that is suspended in the header read) -/
+def OwedF (st : St) (hx : Nat) : Prop :=
+  hx ∈ st.flipped ∨ ∃ r ∈ st.hreads, hx ∈ r.flips
+
+/-- version `c` of the confirmed history of `hx` is current or a recomputation is owed -/
+def validC (st : St) (hx c : Nat) : Prop := c = confOf st hx ∨ Owed st hx
+
+/-- what an accepted read satisfies: current, or a change is still in the carrier -/
+def valid0 (st : St) (hx c : Nat) : Prop := c = confOf st hx ∨ hx ∈ st.carrier
+
+theorem valid0.validC {st : St} {hx c : Nat} (h : valid0 st hx c) : validC st hx c := by
+  rcases h with h | h
+  · exact Or.inl h
+  · exact Or.inr (Or.inl h)
+
+/-- the first loop of a `_notify_inner` of session `s` is suspended (its second loop will follow) -/
+def Loop2 (st : St) (s : Nat) : Prop := ∃ t ∈ st.tasks, ∃ rest ch, t.cont = .notify s rest ch
+
+/-- a recomputation of (s, hx) is pending inside some `_notify_inner` -/
 def Pending (st : St) (s hx : Nat) : Prop :=
-  ∃ t ∈ st.tasks, ∃ rest ch, t.cont = .notify s rest ch ∧ (t.hx = hx ∨ hx ∈ rest)
+  ∃ t ∈ st.tasks, (∃ rest ch, t.cont = .notify s rest ch ∧ (t.hx = hx ∨ hx ∈ rest)) ∨
+    (∃ old rest ch, t.cont = .notify2 s old rest ch ∧ (t.hx = hx ∨ hx ∈ rest.map Prod.fst))
 
-/-- session `s` holds a valid status of `hx`, or a recomputation is pending -/
+/-- the status held is right about the confirmed history and is what `mempool_statuses` records -/
+def FlipStale (st : St) (s hx : Nat) : Prop :=
+  ∃ c m, heldOf st s hx = some (c, m) ∧ c = confOf st hx ∧ lookup hx (msOf st s) = some (c, m)
+
+/-- session `s` holds a status of `hx` that is current, or something is on its way -/
 def HeldOK (st : St) (s hx : Nat) : Prop :=
-  (∃ v, heldOf st s hx = some v ∧ valid st hx v) ∨ Pending st s hx
+  Pending st s hx ∨ Owed st hx ∨
+    ∃ c m, heldOf st s hx = some (c, m) ∧ c = confOf st hx ∧
+      ((m = 0 ∧ memOf st hx = 0) ∨
+       (lookup hx (msOf st s) = some (c, m) ∧ (m = memOf st hx ∨ OwedF st hx ∨ Loop2 st s)))
 
-structure Inv (st : St) : Prop where
-  lens : st.held.length = st.subs.length
-  cache : ∀ hx v, lookup hx st.cache = some v → valid st hx v
-  reads : ∀ t ∈ st.tasks, ∀ v, t.value = some v → t.countAtStart = st.notifyCount → valid st t.hx v
-  counts : ∀ t ∈ st.tasks, t.countAtStart ≤ st.notifyCount
-  held : ∀ s hx, hx ∈ subsOf st s → (∃ v, heldOf st s hx = some v ∧ valid st hx v) ∨ Pending st s hx
-  /-- non-batch mode: `_notify_inner` never accumulates computed statuses -/
-  nochg : ∀ t ∈ st.tasks, ∀ s rest ch, t.cont = .notify s rest ch → ch = []
-  /-- the read started by `hashX_subscribe(x)` reads `x` -/
-  subhx : ∀ t ∈ st.tasks, ∀ s x, t.cont = .sub s x → t.hx = x
+theorem FlipStale.heldOK_of_loop2 {st : St} {s hx : Nat} (h : FlipStale st s hx) (hl : Loop2 st s) :
+    HeldOK st s hx := by
+  obtain ⟨c, m, h1, h2, h3⟩ := h
+  exact Or.inr (Or.inr ⟨c, m, h1, h2, Or.inr ⟨h3, Or.inr (Or.inr hl)⟩⟩)
 
 /-- `Inv` without the `held` clause -/
 structure Base (st : St) : Prop where
   lens : st.held.length = st.subs.length
-  cache : ∀ hx v, lookup hx st.cache = some v → valid st hx v
-  reads : ∀ t ∈ st.tasks, ∀ v, t.value = some v → t.countAtStart = st.notifyCount → valid st t.hx v
+  lenMs : st.ms.length = st.subs.length
+  cache : ∀ hx c, lookup hx st.cache = some c → validC st hx c
+  reads : ∀ t ∈ st.tasks, ∀ c, t.value = some c → t.countAtStart = st.notifyCount → valid0 st t.hx c
   counts : ∀ t ∈ st.tasks, t.countAtStart ≤ st.notifyCount
-  nochg : ∀ t ∈ st.tasks, ∀ s rest ch, t.cont = .notify s rest ch → ch = []
+  /-- non-batch mode: `_notify_inner` never accumulates computed statuses -/
+  nochg : ∀ t ∈ st.tasks, (∀ s rest ch, t.cont = .notify s rest ch → ch = []) ∧
+    (∀ s old rest ch, t.cont = .notify2 s old rest ch → ch = [])
+  /-- the read started by `hashX_subscribe(x)` reads `x` -/
   subhx : ∀ t ∈ st.tasks, ∀ s x, t.cont = .sub s x → t.hx = x
 
-theorem Inv.base {st : St} (h : Inv st) : Base st :=
-  ⟨h.lens, h.cache, h.reads, h.counts, h.nochg, h.subhx⟩
+structure Inv (st : St) : Prop extends Base st where
+  held : ∀ s hx, aliveOf st s = true → hx ∈ subsOf st s → HeldOK st s hx
 
-theorem Inv.of_base {st : St} (h : Base st) (hh : ∀ s hx, hx ∈ subsOf st s → HeldOK st s hx) : Inv st :=
-  ⟨h.lens, h.cache, h.reads, h.counts, hh, h.nochg, h.subhx⟩
+theorem Inv.of_base {st : St} (h : Base st)
+    (hh : ∀ s hx, aliveOf st s = true → hx ∈ subsOf st s → HeldOK st s hx) : Inv st := ⟨h, hh⟩
 
 theorem inv_init (n m : Nat) : Inv (init n m) := by
-  refine ⟨by simp [init], ?_, ?_, ?_, ?_, ?_, ?_⟩
+  refine ⟨⟨by simp [init], by simp [init], ?_, ?_, ?_, ?_, ?_⟩, ?_⟩
   · intro hx v h; simp [init, lookup] at h
   · intro t ht; simp [init] at ht
   · intro t ht; simp [init] at ht
-  · intro s hx h
+  · intro t ht; simp [init] at ht
+  · intro t ht; simp [init] at ht
+  · intro s hx _ h
     simp only [subsOf, init, List.getD_eq_getElem?_getD, List.getElem?_replicate] at h
     split at h <;> simp at h
-  · intro t ht; simp [init] at ht
-  · intro t ht; simp [init] at ht
-
-/-! ### `deliver` -/
-
-theorem heldOf_deliver (st : St) (s hx v s' hx' : Nat) :
-    heldOf (deliver st s hx v) s' hx' =
-      if s' = s ∧ s < st.held.length ∧ hx' = hx then some v else heldOf st s' hx' := by
-  simp only [heldOf, deliver, List.getD_eq_getElem?_getD, getElem?_modifyAt]
-  by_cases hs : s' = s
-  · subst hs
-    by_cases hl : s' < st.held.length
-    · rw [if_pos rfl, List.getElem?_eq_getElem hl]
-      simp only [Option.map_some, Option.getD_some, lookup_put, hl, true_and]
-    · simp [hl]
-  · simp [hs]
-
-/-- what `deliver`/`notifyGo` do to the rest of the state -/
-structure Frame (st st' : St) : Prop where
-  cur : st'.cur = st.cur
-  carrier : st'.carrier = st.carrier
-  cache : st'.cache = st.cache
-  subs : st'.subs = st.subs
-  count : st'.notifyCount = st.notifyCount
-  lenHeld : st'.held.length = st.held.length
-  tasks : ∃ extra, st'.tasks = st.tasks ++ extra ∧
-    ∀ t ∈ extra, t.value = none ∧ t.countAtStart = st.notifyCount ∧ ∃ s rest, t.cont = .notify s rest []
-  heldOK : ∀ s hx, HeldOK st s hx → HeldOK st' s hx
-
-theorem Frame.refl (st : St) : Frame st st :=
-  ⟨rfl, rfl, rfl, rfl, rfl, rfl, ⟨[], by simp⟩, fun _ _ h => h⟩
-
-theorem Frame.trans {a b c : St} (h1 : Frame a b) (h2 : Frame b c) : Frame a c := by
-  obtain ⟨e1, he1, hp1⟩ := h1.tasks
-  obtain ⟨e2, he2, hp2⟩ := h2.tasks
-  refine ⟨h2.cur.trans h1.cur, h2.carrier.trans h1.carrier, h2.cache.trans h1.cache,
-    h2.subs.trans h1.subs, h2.count.trans h1.count, h2.lenHeld.trans h1.lenHeld,
-    ⟨e1 ++ e2, by rw [he2, he1, List.append_assoc], ?_⟩, fun s hx h => h2.heldOK s hx (h1.heldOK s hx h)⟩
-  intro t ht
-  rcases List.mem_append.mp ht with ht | ht
-  · exact hp1 t ht
-  · have := hp2 t ht; rw [h1.count] at this; exact this
-
-theorem Frame.valid {st st' : St} (h : Frame st st') (hx v : Nat) : valid st' hx v ↔ valid st hx v := by
-  simp only [System.valid, curOf, h.cur, h.carrier]
-
-theorem Frame.subsOf {st st' : St} (h : Frame st st') (s : Nat) : subsOf st' s = subsOf st s := by
-  simp only [System.subsOf, h.subs]
-
-theorem Frame.base {st st' : St} (h : Frame st st') (hb : Base st) : Base st' := by
-  obtain ⟨e, he, hp⟩ := h.tasks
-  refine ⟨by rw [h.lenHeld, h.subs]; exact hb.lens, ?_, ?_, ?_, ?_, ?_⟩
-  · intro hx v hl; rw [h.cache] at hl; exact (h.valid hx v).mpr (hb.cache hx v hl)
-  · intro t ht v hv hc
-    rw [he] at ht; rw [h.count] at hc
-    rcases List.mem_append.mp ht with ht | ht
-    · exact (h.valid _ _).mpr (hb.reads t ht v hv hc)
-    · rw [(hp t ht).1] at hv; cases hv
-  · intro t ht
-    rw [he] at ht; rw [h.count]
-    rcases List.mem_append.mp ht with ht | ht
-    · exact hb.counts t ht
-    · rw [(hp t ht).2.1]; exact Nat.le_refl _
-  · intro t ht s rest ch hc
-    rw [he] at ht
-    rcases List.mem_append.mp ht with ht | ht
-    · exact hb.nochg t ht s rest ch hc
-    · obtain ⟨s', rest', hc'⟩ := (hp t ht).2.2
-      rw [hc'] at hc; cases hc; rfl
-  · intro t ht s x hc
-    rw [he] at ht
-    rcases List.mem_append.mp ht with ht | ht
-    · exact hb.subhx t ht s x hc
-    · obtain ⟨s', rest', hc'⟩ := (hp t ht).2.2
-      rw [hc'] at hc; cases hc
-
-theorem Pending.mono {st st' : St} (h : ∀ t ∈ st.tasks, t ∈ st'.tasks) {s hx : Nat}
-    (hp : Pending st s hx) : Pending st' s hx := by
-  obtain ⟨t, ht, rest, ch, hc, hm⟩ := hp
-  exact ⟨t, h t ht, rest, ch, hc, hm⟩
-
-theorem deliver_frame (st : St) (s hx v : Nat) (hv : valid st hx v) : Frame st (deliver st s hx v) := by
-  refine ⟨rfl, rfl, rfl, rfl, rfl, by simp [deliver, length_modifyAt], ⟨[], by simp [deliver]⟩, ?_⟩
-  intro s' hx' h
-  rcases h with ⟨v', hv', hval⟩ | h
-  · left
-    rw [heldOf_deliver]
-    split
-    · next hc => obtain ⟨_, _, rfl⟩ := hc; exact ⟨v, rfl, hv⟩
-    · exact ⟨v', hv', hval⟩
-  · right; exact h
-
-theorem deliver_heldOK (st : St) (s hx v : Nat) (hv : valid st hx v) (hs : s < st.held.length) :
-    HeldOK (deliver st s hx v) s hx := by
-  left
-  exact ⟨v, by rw [heldOf_deliver, if_pos ⟨rfl, hs, rfl⟩], hv⟩
 
 theorem lt_of_mem_subsOf {st : St} {s hx : Nat} (h : hx ∈ subsOf st s) : s < st.subs.length := by
   apply Classical.byContradiction
@@ -232,280 +216,1314 @@ theorem lt_of_mem_subsOf {st : St} {s hx : Nat} (h : hx ∈ subsOf st s) : s < s
   have : st.subs[s]? = none := List.getElem?_eq_none (by omega)
   simp [subsOf, List.getD_eq_getElem?_getD, this] at h
 
+/-! ### `deliver`, `setMs` -/
 
-/-! ### `notifyGo` (the `_notify_inner` loop), non-batch mode -/
+theorem heldOf_deliver (st : St) (s hx : Nat) (v : Status) (s' hx' : Nat) :
+    heldOf (deliver st s hx v) s' hx' =
+      if s' = s ∧ s < st.held.length ∧ hx' = hx then some v else heldOf st s' hx' := by
+  simp only [heldOf, deliver, getD_modifyAt]
+  by_cases hs : s' = s
+  · subst hs
+    by_cases hl : s' < st.held.length
+    · simp only [hl, and_self, if_true, lookup_put, true_and]
+    · simp [hl]
+  · simp [hs]
 
-theorem HeldOK.of_tasks_append {st : St} {extra : List Task} {s hx : Nat} (h : HeldOK st s hx) :
-    HeldOK { st with tasks := st.tasks ++ extra } s hx := by
-  rcases h with h | h
-  · exact Or.inl h
-  · exact Or.inr (Pending.mono (fun t ht => List.mem_append_left _ ht) h)
+theorem msOf_setMs (st : St) (s hx : Nat) (v : Status) (s' hx' : Nat) :
+    lookup hx' (msOf (setMs st s hx v) s') =
+      if s' = s ∧ s < st.ms.length ∧ hx' = hx then (if v.2 != 0 then some v else none)
+      else lookup hx' (msOf st s') := by
+  simp only [msOf, setMs, getD_modifyAt]
+  by_cases hs : s' = s
+  · subst hs
+    by_cases hl : s' < st.ms.length
+    · simp only [hl, and_self, if_true, true_and]
+      by_cases hv : (v.2 != 0) = true
+      · simp only [hv, if_true, lookup_dictSet]
+      · simp only [hv, Bool.false_eq_true, if_false, lookup_dictErase]
+    · simp [hl]
+  · simp [hs]
 
-theorem notifyGo_spec (f : Flags) (hb : f.batch = false) (s : Nat) (todo : List Nat) (st : St)
-    (hc : ∀ hx v, lookup hx st.cache = some v → valid st hx v)
-    (hl : st.held.length = st.subs.length) :
-    Frame st (notifyGo f st s todo []) ∧
-    ∀ hx ∈ todo, hx ∈ subsOf st s → HeldOK (notifyGo f st s todo []) s hx := by
+/-- `address_status` stores the status and the client receives it (subscribe reply / notification) -/
+def send (st : St) (s hx : Nat) (v : Status) : St := deliver (setMs st s hx v) s hx v
+
+theorem heldOf_send (st : St) (s hx : Nat) (v : Status) (s' hx' : Nat) :
+    heldOf (send st s hx v) s' hx' =
+      if s' = s ∧ s < st.held.length ∧ hx' = hx then some v else heldOf st s' hx' := by
+  unfold send; rw [heldOf_deliver]; rfl
+
+theorem msOf_send (st : St) (s hx : Nat) (v : Status) (s' hx' : Nat) :
+    lookup hx' (msOf (send st s hx v) s') =
+      if s' = s ∧ s < st.ms.length ∧ hx' = hx then (if v.2 != 0 then some v else none)
+      else lookup hx' (msOf st s') := by
+  unfold send; rw [← msOf_setMs]; rfl
+
+theorem Pending.mono {st st' : St} (h : ∀ t ∈ st.tasks, t ∈ st'.tasks) {s hx : Nat}
+    (hp : Pending st s hx) : Pending st' s hx := by
+  obtain ⟨t, ht, hc⟩ := hp
+  exact ⟨t, h t ht, hc⟩
+
+theorem Loop2.mono {st st' : St} (h : ∀ t ∈ st.tasks, t ∈ st'.tasks) {s : Nat}
+    (hp : Loop2 st s) : Loop2 st' s := by
+  obtain ⟨t, ht, hc⟩ := hp
+  exact ⟨t, h t ht, hc⟩
+
+/-- `HeldOK` of (s, hx) survives any step that leaves what it talks about alone -/
+theorem HeldOK.mono {st st' : St} {s hx : Nat}
+    (hconf : confOf st' hx = confOf st hx) (hmem : memOf st' hx = memOf st hx)
+    (howed : Owed st hx → Owed st' hx) (howedF : OwedF st hx → OwedF st' hx ∨ Owed st' hx)
+    (htasks : ∀ t ∈ st.tasks, t ∈ st'.tasks)
+    (hheld : heldOf st' s hx = heldOf st s hx)
+    (hms : lookup hx (msOf st' s) = lookup hx (msOf st s))
+    (h : HeldOK st s hx) : HeldOK st' s hx := by
+  rcases h with h | h | ⟨c, m, h1, h2, h3⟩
+  · exact Or.inl (h.mono htasks)
+  · exact Or.inr (Or.inl (howed h))
+  · rcases h3 with h3 | ⟨h3, h4⟩
+    · exact Or.inr (Or.inr ⟨c, m, by rw [hheld]; exact h1, by rw [hconf]; exact h2, Or.inl (by rw [hmem]; exact h3)⟩)
+    · rcases h4 with h4 | h4 | h4
+      · exact Or.inr (Or.inr ⟨c, m, by rw [hheld]; exact h1, by rw [hconf]; exact h2,
+          Or.inr ⟨by rw [hms]; exact h3, Or.inl (by rw [hmem]; exact h4)⟩⟩)
+      · rcases howedF h4 with h5 | h5
+        · exact Or.inr (Or.inr ⟨c, m, by rw [hheld]; exact h1, by rw [hconf]; exact h2,
+            Or.inr ⟨by rw [hms]; exact h3, Or.inr (Or.inl h5)⟩⟩)
+        · exact Or.inr (Or.inl h5)
+      · exact Or.inr (Or.inr ⟨c, m, by rw [hheld]; exact h1, by rw [hconf]; exact h2,
+          Or.inr ⟨by rw [hms]; exact h3, Or.inr (Or.inr (h4.mono htasks))⟩⟩)
+
+theorem FlipStale.congr {st st' : St} {s hx : Nat}
+    (hconf : confOf st' hx = confOf st hx)
+    (hheld : heldOf st' s hx = heldOf st s hx)
+    (hms : lookup hx (msOf st' s) = lookup hx (msOf st s))
+    (h : FlipStale st s hx) : FlipStale st' s hx := by
+  obtain ⟨c, m, h1, h2, h3⟩ := h
+  exact ⟨c, m, by rw [hheld]; exact h1, by rw [hconf]; exact h2, by rw [hms]; exact h3⟩
+
+/-- a freshly computed status that is sent is fine -/
+theorem send_heldOK (st : St) (s hx c : Nat) (hv : validC st hx c)
+    (hs : s < st.held.length) (hs' : s < st.ms.length) :
+    HeldOK (send st s hx (c, memOf st hx)) s hx := by
+  rcases hv with hv | hv
+  · refine Or.inr (Or.inr ⟨c, memOf st hx, ?_, hv, ?_⟩)
+    · rw [heldOf_send, if_pos ⟨rfl, hs, rfl⟩]
+    · by_cases hm : memOf st hx = 0
+      · exact Or.inl ⟨hm, hm⟩
+      · refine Or.inr ⟨?_, Or.inl rfl⟩
+        rw [msOf_send, if_pos ⟨rfl, hs', rfl⟩]
+        simp [hm]
+  · exact Or.inr (Or.inl hv)
+
+/-- what the loops of `_notify_inner` do to the rest of the state -/
+structure Frame0 (st st' : St) : Prop where
+  conf : st'.conf = st.conf
+  mem : st'.mem = st.mem
+  carrier : st'.carrier = st.carrier
+  lost : st'.lost = st.lost
+  flipped : st'.flipped = st.flipped
+  hreads : st'.hreads = st.hreads
+  cache : st'.cache = st.cache
+  subs : st'.subs = st.subs
+  alive : st'.alive = st.alive
+  count : st'.notifyCount = st.notifyCount
+  supp : ∀ x ∈ st.suppressed, x ∈ st'.suppressed
+  lenHeld : st'.held.length = st.held.length
+  lenMs : st'.ms.length = st.ms.length
+  tasks : ∃ extra, st'.tasks = st.tasks ++ extra ∧
+    ∀ t ∈ extra, t.value = none ∧ t.countAtStart = st.notifyCount ∧
+      ((∃ s rest, t.cont = .notify s rest []) ∨ (∃ s old rest, t.cont = .notify2 s old rest []))
+  heldOK : ∀ s' hx, HeldOK st s' hx → HeldOK st' s' hx
+
+/-- ... of session `s`: the other sessions' `mempool_statuses` and held statuses are untouched -/
+structure Frame (s : Nat) (st st' : St) : Prop extends Frame0 st st' where
+  other : ∀ s', s' ≠ s → ∀ hx, lookup hx (msOf st' s') = lookup hx (msOf st s') ∧
+    heldOf st' s' hx = heldOf st s' hx
+  flipStale : ∀ hx, FlipStale st s hx → FlipStale st' s hx ∨ HeldOK st' s hx
+
+theorem Frame0.refl (st : St) : Frame0 st st :=
+  ⟨rfl, rfl, rfl, rfl, rfl, rfl, rfl, rfl, rfl, rfl, fun _ h => h, rfl, rfl, ⟨[], by simp⟩, fun _ _ h => h⟩
+
+theorem Frame.refl (s : Nat) (st : St) : Frame s st st :=
+  ⟨Frame0.refl st, fun _ _ _ => ⟨rfl, rfl⟩, fun _ h => Or.inl h⟩
+
+theorem Frame0.trans {a b c : St} (h1 : Frame0 a b) (h2 : Frame0 b c) : Frame0 a c := by
+  obtain ⟨e1, he1, hp1⟩ := h1.tasks
+  obtain ⟨e2, he2, hp2⟩ := h2.tasks
+  refine ⟨h2.conf.trans h1.conf, h2.mem.trans h1.mem, h2.carrier.trans h1.carrier,
+    h2.lost.trans h1.lost, h2.flipped.trans h1.flipped, h2.hreads.trans h1.hreads,
+    h2.cache.trans h1.cache, h2.subs.trans h1.subs, h2.alive.trans h1.alive, h2.count.trans h1.count,
+    fun x hx => h2.supp x (h1.supp x hx), h2.lenHeld.trans h1.lenHeld, h2.lenMs.trans h1.lenMs,
+    ⟨e1 ++ e2, by rw [he2, he1, List.append_assoc], ?_⟩,
+    fun s' hx h => h2.heldOK s' hx (h1.heldOK s' hx h)⟩
+  intro t ht
+  rcases List.mem_append.mp ht with ht | ht
+  · exact hp1 t ht
+  · have := hp2 t ht; rw [h1.count] at this; exact this
+
+theorem Frame.trans {s : Nat} {a b c : St} (h1 : Frame s a b) (h2 : Frame s b c) : Frame s a c := by
+  refine ⟨h1.toFrame0.trans h2.toFrame0, ?_, ?_⟩
+  · intro s' hs' hx
+    exact ⟨((h2.other s' hs' hx).1).trans (h1.other s' hs' hx).1, ((h2.other s' hs' hx).2).trans (h1.other s' hs' hx).2⟩
+  · intro hx h
+    rcases h1.flipStale hx h with h | h
+    · exact h2.flipStale hx h
+    · exact Or.inr (h2.heldOK s hx h)
+
+theorem Frame0.confOf {st st' : St} (h : Frame0 st st') (hx : Nat) : confOf st' hx = confOf st hx := by
+  simp only [System.confOf, h.conf]
+
+theorem Frame0.memOf {st st' : St} (h : Frame0 st st') (hx : Nat) : memOf st' hx = memOf st hx := by
+  simp only [System.memOf, h.mem]
+
+theorem Frame0.subsOf {st st' : St} (h : Frame0 st st') (s' : Nat) : subsOf st' s' = subsOf st s' := by
+  simp only [System.subsOf, h.subs]
+
+theorem Frame0.aliveOf {st st' : St} (h : Frame0 st st') (s' : Nat) : aliveOf st' s' = aliveOf st s' := by
+  simp only [System.aliveOf, h.alive]
+
+theorem Frame0.owed {st st' : St} (h : Frame0 st st') {hx : Nat} (ho : Owed st hx) : Owed st' hx := by
+  rcases ho with ho | ho | ho | ho
+  · exact Or.inl (by rw [h.carrier]; exact ho)
+  · exact Or.inr (Or.inl (by rw [h.lost]; exact ho))
+  · exact Or.inr (Or.inr (Or.inl (h.supp hx ho)))
+  · exact Or.inr (Or.inr (Or.inr (by rw [h.hreads]; exact ho)))
+
+theorem Frame0.validC {st st' : St} (h : Frame0 st st') {hx c : Nat} (hv : validC st hx c) :
+    validC st' hx c := by
+  rcases hv with hv | hv
+  · exact Or.inl (by rw [h.confOf]; exact hv)
+  · exact Or.inr (h.owed hv)
+
+theorem Frame0.valid0 {st st' : St} (h : Frame0 st st') {hx c : Nat} (hv : valid0 st hx c) :
+    valid0 st' hx c := by
+  rcases hv with hv | hv
+  · exact Or.inl (by rw [h.confOf]; exact hv)
+  · exact Or.inr (by rw [h.carrier]; exact hv)
+
+theorem Frame0.base {st st' : St} (h : Frame0 st st') (hb : Base st) : Base st' := by
+  obtain ⟨e, he, hp⟩ := h.tasks
+  refine ⟨by rw [h.lenHeld, h.subs]; exact hb.lens, by rw [h.lenMs, h.subs]; exact hb.lenMs, ?_, ?_, ?_, ?_, ?_⟩
+  · intro hx v hl; rw [h.cache] at hl; exact h.validC (hb.cache hx v hl)
+  · intro t ht v hv hc
+    rw [he] at ht; rw [h.count] at hc
+    rcases List.mem_append.mp ht with ht | ht
+    · exact h.valid0 (hb.reads t ht v hv hc)
+    · rw [(hp t ht).1] at hv; cases hv
+  · intro t ht
+    rw [he] at ht; rw [h.count]
+    rcases List.mem_append.mp ht with ht | ht
+    · exact hb.counts t ht
+    · rw [(hp t ht).2.1]; exact Nat.le_refl _
+  · intro t ht
+    rw [he] at ht
+    rcases List.mem_append.mp ht with ht | ht
+    · exact hb.nochg t ht
+    · rcases (hp t ht).2.2 with ⟨s0, rest', hc'⟩ | ⟨s0, old', rest', hc'⟩
+      · exact ⟨fun s1 r1 c1 hc => (by rw [hc'] at hc; cases hc; rfl), fun s1 o1 r1 c1 hc => (by rw [hc'] at hc; cases hc)⟩
+      · exact ⟨fun s1 r1 c1 hc => (by rw [hc'] at hc; cases hc), fun s1 o1 r1 c1 hc => (by rw [hc'] at hc; cases hc; rfl)⟩
+  · intro t ht s1 x hc
+    rw [he] at ht
+    rcases List.mem_append.mp ht with ht | ht
+    · exact hb.subhx t ht s1 x hc
+    · rcases (hp t ht).2.2 with ⟨s0, rest', hc'⟩ | ⟨s0, old', rest', hc'⟩ <;> (rw [hc'] at hc; cases hc)
+
+
+theorem Frame.confOf {s : Nat} {st st' : St} (h : Frame s st st') (hx : Nat) : confOf st' hx = confOf st hx := h.toFrame0.confOf hx
+theorem Frame.memOf {s : Nat} {st st' : St} (h : Frame s st st') (hx : Nat) : memOf st' hx = memOf st hx := h.toFrame0.memOf hx
+theorem Frame.subsOf {s : Nat} {st st' : St} (h : Frame s st st') (s' : Nat) : subsOf st' s' = subsOf st s' := h.toFrame0.subsOf s'
+theorem Frame.aliveOf {s : Nat} {st st' : St} (h : Frame s st st') (s' : Nat) : aliveOf st' s' = aliveOf st s' := h.toFrame0.aliveOf s'
+theorem Frame.owed {s : Nat} {st st' : St} (h : Frame s st st') {hx : Nat} (ho : Owed st hx) : Owed st' hx := h.toFrame0.owed ho
+theorem Frame.validC {s : Nat} {st st' : St} (h : Frame s st st') {hx c : Nat} (hv : validC st hx c) : validC st' hx c := h.toFrame0.validC hv
+theorem Frame.valid0 {s : Nat} {st st' : St} (h : Frame s st st') {hx c : Nat} (hv : valid0 st hx c) : valid0 st' hx c := h.toFrame0.valid0 hv
+theorem Frame.base {s : Nat} {st st' : St} (h : Frame s st st') (hb : Base st) : Base st' := h.toFrame0.base hb
+
+/-- `send` of a valid fresh status is a frame step -/
+theorem send_frame (st : St) (s hx c : Nat) (hv : validC st hx c) (hlen : st.held.length = st.ms.length) :
+    Frame s st (send st s hx (c, memOf st hx)) := by
+  have key : ∀ s' hx', ¬(s' = s ∧ hx' = hx) →
+      heldOf (send st s hx (c, memOf st hx)) s' hx' = heldOf st s' hx' ∧
+      lookup hx' (msOf (send st s hx (c, memOf st hx)) s') = lookup hx' (msOf st s') := by
+    intro s' hx' hne
+    rw [heldOf_send, msOf_send]
+    constructor
+    · rw [if_neg (fun h => hne ⟨h.1, h.2.2⟩)]
+    · rw [if_neg (fun h => hne ⟨h.1, h.2.2⟩)]
+  have hsmall : ¬ s < st.held.length → ∀ s' hx',
+      heldOf (send st s hx (c, memOf st hx)) s' hx' = heldOf st s' hx' ∧
+      lookup hx' (msOf (send st s hx (c, memOf st hx)) s') = lookup hx' (msOf st s') := by
+    intro hn s' hx'
+    rw [heldOf_send, msOf_send]
+    constructor
+    · rw [if_neg (fun h => hn h.2.1)]
+    · rw [if_neg (fun h => hn (by rw [hlen]; exact h.2.1))]
+  refine ⟨⟨rfl, rfl, rfl, rfl, rfl, rfl, rfl, rfl, rfl, rfl, fun _ h => h,
+    by simp [send, deliver, setMs, length_modifyAt], by simp [send, deliver, setMs, length_modifyAt],
+    ⟨[], by simp [send, deliver, setMs]⟩, ?_⟩, ?_, ?_⟩
+  rotate_left
+  · intro s' hs' hx'
+    have := key s' hx' (fun h => hs' h.1)
+    exact ⟨this.2, this.1⟩
+  rotate_left
+  · intro s' hx' h
+    by_cases hl : s < st.held.length
+    · by_cases he : s' = s ∧ hx' = hx
+      · obtain ⟨rfl, rfl⟩ := he
+        exact send_heldOK st s' hx' c hv hl (by rw [← hlen]; exact hl)
+      · exact h.mono (st := st) (st' := send st s hx (c, memOf st hx)) rfl rfl id Or.inl (fun _ ht => ht) (key s' hx' he).1 (key s' hx' he).2
+    · exact h.mono (st := st) (st' := send st s hx (c, memOf st hx)) rfl rfl id Or.inl (fun _ ht => ht) (hsmall hl s' hx').1 (hsmall hl s' hx').2
+  · intro hx' h
+    by_cases hl : s < st.held.length
+    · by_cases he : hx' = hx
+      · subst he
+        exact Or.inr (send_heldOK st s hx' c hv hl (by rw [← hlen]; exact hl))
+      · exact Or.inl (h.congr (st := st) (st' := send st s hx (c, memOf st hx)) rfl (key s hx' (fun h => he h.2)).1 (key s hx' (fun h => he h.2)).2)
+    · exact Or.inl (h.congr (st := st) (st' := send st s hx (c, memOf st hx)) rfl (hsmall hl s hx').1 (hsmall hl s hx').2)
+
+theorem visit1_eq (f : Flags) (hb : f.batch = false) (st : St) (s hx c : Nat) (ch : List (Nat × Status)) :
+    visit1 f st s hx c ch = (send st s hx (c, memOf st hx), ch) := by
+  simp [visit1, hb, send]
+
+/-- storing a status in `mempool_statuses` without sending it (and possibly growing `suppressed`) -/
+theorem setMs_frame (st : St) (s hx : Nat) (v : Status) (sup' : List Nat)
+    (hsup : ∀ x ∈ st.suppressed, x ∈ sup')
+    (hok : s < st.ms.length → HeldOK { (setMs st s hx v) with suppressed := sup' } s hx) :
+    Frame s st { (setMs st s hx v) with suppressed := sup' } := by
+  have hheld : ∀ s' hx', heldOf { (setMs st s hx v) with suppressed := sup' } s' hx' = heldOf st s' hx' :=
+    fun _ _ => rfl
+  have hms : ∀ s' hx', ¬(s' = s ∧ s < st.ms.length ∧ hx' = hx) →
+      lookup hx' (msOf { (setMs st s hx v) with suppressed := sup' } s') = lookup hx' (msOf st s') := by
+    intro s' hx' hne
+    have : lookup hx' (msOf { (setMs st s hx v) with suppressed := sup' } s') =
+        lookup hx' (msOf (setMs st s hx v) s') := rfl
+    rw [this, msOf_setMs, if_neg hne]
+  have howed : ∀ x, Owed st x → Owed { (setMs st s hx v) with suppressed := sup' } x := by
+    intro x ho
+    rcases ho with ho | ho | ho | ho
+    · exact Or.inl ho
+    · exact Or.inr (Or.inl ho)
+    · exact Or.inr (Or.inr (Or.inl (hsup x ho)))
+    · exact Or.inr (Or.inr (Or.inr ho))
+  refine ⟨⟨rfl, rfl, rfl, rfl, rfl, rfl, rfl, rfl, rfl, rfl, hsup, rfl,
+    by simp [setMs, length_modifyAt], ⟨[], by simp [setMs]⟩, ?_⟩, ?_, ?_⟩
+  rotate_left
+  · intro s' hs' hx'
+    exact ⟨hms s' hx' (fun h => hs' h.1), hheld s' hx'⟩
+  rotate_left
+  · intro s' hx' h
+    by_cases he : s' = s ∧ s < st.ms.length ∧ hx' = hx
+    · obtain ⟨rfl, hl, rfl⟩ := he
+      exact hok hl
+    · exact h.mono (st := st) rfl rfl (howed hx') Or.inl (fun _ ht => ht) (hheld s' hx') (hms s' hx' he)
+  · intro hx' h
+    by_cases he : s < st.ms.length ∧ hx' = hx
+    · obtain ⟨hl, rfl⟩ := he
+      exact Or.inr (hok hl)
+    · exact Or.inl (h.congr (st := st) rfl (hheld s hx') (hms s hx' (fun h => he h.2)))
+
+theorem visit2_spec (f : Flags) (hb : f.batch = false) (st : St) (s hx c : Nat) (old : Status)
+    (ch : List (Nat × Status)) (hv : validC st hx c) (hlen : st.held.length = st.ms.length) :
+    Frame s st (visit2 f st s hx c old ch).1 ∧ (visit2 f st s hx c old ch).2 = ch ∧
+      (s < st.held.length → HeldOK (visit2 f st s hx c old ch).1 s hx) := by
+  unfold visit2
+  split
+  · rw [visit1_eq f hb]
+    exact ⟨send_frame st s hx c hv hlen, rfl,
+      fun hl => send_heldOK st s hx c hv hl (by rw [← hlen]; exact hl)⟩
+  · simp only
+    have hok : s < st.ms.length → HeldOK { (setMs st s hx (c, memOf st hx)) with
+        suppressed := if heldOf st s hx != some (c, memOf st hx) then st.suppressed ++ [hx]
+                      else st.suppressed } s hx := by
+      intro hl
+      by_cases hh : heldOf st s hx = some (c, memOf st hx)
+      · have hne : (heldOf st s hx != some (c, memOf st hx)) = false := by simp [hh]
+        rw [hne]
+        simp only [Bool.false_eq_true, if_false]
+        rcases hv with hv | hv
+        · refine Or.inr (Or.inr ⟨c, memOf st hx, hh, hv, ?_⟩)
+          by_cases hm : memOf st hx = 0
+          · exact Or.inl ⟨hm, hm⟩
+          · refine Or.inr ⟨?_, Or.inl rfl⟩
+            have : lookup hx (msOf { (setMs st s hx (c, memOf st hx)) with suppressed := st.suppressed } s) =
+                lookup hx (msOf (setMs st s hx (c, memOf st hx)) s) := rfl
+            rw [this, msOf_setMs, if_pos ⟨rfl, hl, rfl⟩]
+            simp [hm]
+        · rcases hv with hv | hv | hv | hv
+          · exact Or.inr (Or.inl (Or.inl hv))
+          · exact Or.inr (Or.inl (Or.inr (Or.inl hv)))
+          · exact Or.inr (Or.inl (Or.inr (Or.inr (Or.inl hv))))
+          · exact Or.inr (Or.inl (Or.inr (Or.inr (Or.inr hv))))
+      · have hne : (heldOf st s hx != some (c, memOf st hx)) = true := by simp [hh]
+        rw [hne]
+        simp only [if_true]
+        exact Or.inr (Or.inl (Or.inr (Or.inr (Or.inl (List.mem_append_right _ (List.mem_singleton.mpr rfl))))))
+    refine ⟨setMs_frame st s hx _ _ ?_ hok, trivial, fun hl => hok (by rw [← hlen]; exact hl)⟩
+    intro x hx'
+    split
+    · exact List.mem_append_left _ hx'
+    · exact hx'
+
+/-- a `_notify_inner` of session `s` suspends on a history read -/
+theorem suspend_frame (st : St) (s : Nat) (t : Task) (hv : t.value = none) (hcnt : t.countAtStart = st.notifyCount)
+    (hc : (∃ rest, t.cont = .notify s rest []) ∨ (∃ old rest, t.cont = .notify2 s old rest [])) :
+    Frame s st { st with tasks := st.tasks ++ [t] } := by
+  refine ⟨⟨rfl, rfl, rfl, rfl, rfl, rfl, rfl, rfl, rfl, rfl, fun _ h => h, rfl, rfl, ⟨[t], rfl, ?_⟩, ?_⟩,
+    fun _ _ _ => ⟨rfl, rfl⟩, ?_⟩
+  · intro t' ht'
+    rw [List.mem_singleton] at ht'; subst ht'
+    refine ⟨hv, hcnt, ?_⟩
+    rcases hc with ⟨r, h⟩ | ⟨o, r, h⟩
+    · exact Or.inl ⟨s, r, h⟩
+    · exact Or.inr ⟨s, o, r, h⟩
+  · intro s' hx' h
+    exact h.mono (st := st) rfl rfl id Or.inl (fun _ ht => List.mem_append_left _ ht) rfl rfl
+  · intro hx' h
+    exact Or.inl (h.congr (st := st) rfl rfl rfl)
+
+theorem contains_false_of_not_mem {l : List Nat} {x : Nat} (h : x ∉ l) : l.contains x = false := by
+  cases hc : l.contains x
+  · rfl
+  · exact absurd (List.contains_iff_mem.mp hc) h
+
+/-! ### the loops of `_notify_inner`, non-batch mode -/
+
+theorem notifyGo2_spec (f : Flags) (hb : f.batch = false) (s : Nat) (todo : List (Nat × Status)) (st : St)
+    (hc : ∀ hx v, lookup hx st.cache = some v → validC st hx v)
+    (hl : st.held.length = st.subs.length) (hlm : st.ms.length = st.subs.length) :
+    Frame s st (notifyGo2 f st s todo []) ∧
+    ∀ hx ∈ todo.map Prod.fst, hx ∈ subsOf st s → HeldOK (notifyGo2 f st s todo []) s hx := by
   induction todo generalizing st with
   | nil =>
-    simp only [notifyGo, List.foldl_nil]
-    exact ⟨Frame.refl st, fun hx h => by simp at h⟩
+    simp only [notifyGo2, flushChanged, List.foldl_nil]
+    exact ⟨Frame.refl s st, fun hx h => by simp at h⟩
+  | cons e rest ih =>
+    obtain ⟨x, old⟩ := e
+    rw [notifyGo2]
+    by_cases hsub : x ∈ subsOf st s
+    · have hcon : (subsOf st s).contains x = true := List.contains_iff_mem.mpr hsub
+      simp only [hcon, Bool.not_true, Bool.false_eq_true, if_false]
+      cases hlk : lookup x st.cache with
+      | some c =>
+        simp only
+        obtain ⟨F1, e2, H1⟩ := visit2_spec f hb st s x c old [] (hc x c hlk) (by rw [hl, hlm])
+        rw [e2]
+        obtain ⟨F2, H2⟩ := ih (visit2 f st s x c old []).1
+          (fun hx' v' h' => F1.validC (hc hx' v' (by rw [F1.cache] at h'; exact h')))
+          (by rw [F1.lenHeld, F1.subs]; exact hl) (by rw [F1.lenMs, F1.subs]; exact hlm)
+        refine ⟨F1.trans F2, ?_⟩
+        intro hx hm hs
+        rw [List.map_cons, List.mem_cons] at hm
+        rcases hm with rfl | hm
+        · exact F2.heldOK _ _ (H1 (by rw [hl]; exact lt_of_mem_subsOf hs))
+        · exact H2 hx hm (by rw [F1.subsOf]; exact hs)
+      | none =>
+        simp only
+        refine ⟨suspend_frame st s _ rfl rfl (Or.inr ⟨old, rest, rfl⟩), ?_⟩
+        intro hx hm _
+        rw [List.map_cons, List.mem_cons] at hm
+        refine Or.inl ⟨_, List.mem_append_right _ (List.mem_singleton.mpr rfl), Or.inr ⟨old, rest, [], rfl, ?_⟩⟩
+        rcases hm with rfl | hm
+        · exact Or.inl rfl
+        · exact Or.inr hm
+    · simp only [contains_false_of_not_mem hsub, Bool.not_false, if_true]
+      obtain ⟨F2, H2⟩ := ih st hc hl hlm
+      refine ⟨F2, ?_⟩
+      intro hx hm hs
+      rw [List.map_cons, List.mem_cons] at hm
+      rcases hm with rfl | hm
+      · exact absurd hs hsub
+      · exact H2 hx hm hs
+
+theorem notifyGo_spec (f : Flags) (hb : f.batch = false) (hr : f.recheck = true) (s : Nat) (todo : List Nat)
+    (st : St) (hc : ∀ hx v, lookup hx st.cache = some v → validC st hx v)
+    (hl : st.held.length = st.subs.length) (hlm : st.ms.length = st.subs.length) :
+    Frame s st (notifyGo f st s todo []) ∧
+    ∀ hx, hx ∈ subsOf st s → (hx ∈ todo ∨ FlipStale st s hx) → HeldOK (notifyGo f st s todo []) s hx := by
+  induction todo generalizing st with
+  | nil =>
+    simp only [notifyGo, hr, if_true]
+    obtain ⟨F, H⟩ := notifyGo2_spec f hb s (msOf st s) st hc hl hlm
+    refine ⟨F, ?_⟩
+    intro hx hs h
+    rcases h with h | ⟨c, m, _, _, h3⟩
+    · simp at h
+    · exact H hx (mem_keys_of_lookup h3) hs
   | cons x rest ih =>
     rw [notifyGo]
     by_cases hsub : x ∈ subsOf st s
     · have hcon : (subsOf st s).contains x = true := List.contains_iff_mem.mpr hsub
       simp only [hcon, Bool.not_true, Bool.false_eq_true, if_false]
       cases hlk : lookup x st.cache with
-      | some v =>
-        simp only [hb, Bool.false_eq_true, if_false]
-        have hv := hc x v hlk
-        have F1 := deliver_frame st s x v hv
-        obtain ⟨F2, H2⟩ := ih (deliver st s x v)
-          (fun hx' v' h' => (F1.valid hx' v').mpr (hc hx' v' (by rw [F1.cache] at h'; exact h')))
-          (by rw [F1.lenHeld, F1.subs]; exact hl)
+      | some c =>
+        simp only [visit1_eq f hb]
+        have hv := hc x c hlk
+        have F1 := send_frame st s x c hv (by rw [hl, hlm])
+        obtain ⟨F2, H2⟩ := ih (send st s x (c, memOf st x))
+          (fun hx' v' h' => F1.validC (hc hx' v' (by rw [F1.cache] at h'; exact h')))
+          (by rw [F1.lenHeld, F1.subs]; exact hl) (by rw [F1.lenMs, F1.subs]; exact hlm)
         refine ⟨F1.trans F2, ?_⟩
-        intro hx hm hs
-        rcases List.mem_cons.mp hm with rfl | hm
-        · exact F2.heldOK _ _ (deliver_heldOK st s hx v hv (by rw [hl]; exact lt_of_mem_subsOf hs))
-        · exact H2 hx hm (by rw [F1.subsOf]; exact hs)
+        intro hx hs h
+        rcases h with h | h
+        · rcases List.mem_cons.mp h with rfl | h
+          · exact F2.heldOK _ _ (send_heldOK st s hx c hv (by rw [hl]; exact lt_of_mem_subsOf hs)
+              (by rw [hlm]; exact lt_of_mem_subsOf hs))
+          · exact H2 hx (by rw [F1.subsOf]; exact hs) (Or.inl h)
+        · rcases F1.flipStale hx h with h | h
+          · exact H2 hx (by rw [F1.subsOf]; exact hs) (Or.inr h)
+          · exact F2.heldOK _ _ h
       | none =>
-        refine ⟨⟨rfl, rfl, rfl, rfl, rfl, rfl, ⟨[_], rfl, ?_⟩, ?_⟩, ?_⟩
-        · intro t ht
-          rw [List.mem_singleton] at ht; subst ht
-          exact ⟨rfl, rfl, s, rest, rfl⟩
-        · intro s' hx' h; exact h.of_tasks_append
-        · intro hx hm _
-          right
-          refine ⟨_, List.mem_append_right _ (List.mem_singleton.mpr rfl), rest, [], rfl, ?_⟩
-          rcases List.mem_cons.mp hm with rfl | hm
+        simp only
+        refine ⟨suspend_frame st s _ rfl rfl (Or.inl ⟨rest, rfl⟩), ?_⟩
+        intro hx _ h
+        have hmemt : (⟨x, st.notifyCount, none, .notify s rest []⟩ : Task) ∈
+            st.tasks ++ [⟨x, st.notifyCount, none, .notify s rest []⟩] :=
+          List.mem_append_right _ (List.mem_singleton.mpr rfl)
+        rcases h with h | h
+        · refine Or.inl ⟨_, hmemt, Or.inl ⟨rest, [], rfl, ?_⟩⟩
+          rcases List.mem_cons.mp h with rfl | h
           · exact Or.inl rfl
-          · exact Or.inr hm
-    · have hcon : (subsOf st s).contains x = false := by
-        cases h : (subsOf st s).contains x
-        · rfl
-        · exact absurd (List.contains_iff_mem.mp h) hsub
-      simp only [hcon, Bool.not_false, if_true]
-      obtain ⟨F2, H2⟩ := ih st hc hl
+          · exact Or.inr h
+        · exact (h.congr (st := st) (st' := { st with tasks := st.tasks ++ [⟨x, st.notifyCount, none, .notify s rest []⟩] })
+            rfl rfl rfl).heldOK_of_loop2 ⟨⟨x, st.notifyCount, none, .notify s rest []⟩, hmemt, rest, [], rfl⟩
+    · simp only [contains_false_of_not_mem hsub, Bool.not_false, if_true]
+      obtain ⟨F2, H2⟩ := ih st hc hl hlm
       refine ⟨F2, ?_⟩
-      intro hx hm hs
-      rcases List.mem_cons.mp hm with rfl | hm
-      · exact absurd hs hsub
-      · exact H2 hx hm hs
+      intro hx hs h
+      rcases h with h | h
+      · rcases List.mem_cons.mp h with rfl | h
+        · exact absurd hs hsub
+        · exact H2 hx hs (Or.inl h)
+      · exact H2 hx hs (Or.inr h)
 
+/-! ### `session.notify` and the session loop of `_notify_sessions` -/
+
+theorem hdrNotify_frame (st : St) (s : Nat) (hc : Bool) : Frame s st (hdrNotify st s hc) := by
+  unfold hdrNotify
+  split
+  · refine ⟨⟨rfl, rfl, rfl, rfl, rfl, rfl, rfl, rfl, rfl, rfl, fun _ h => h, rfl, rfl, ⟨[], by simp⟩, ?_⟩,
+      fun _ _ _ => ⟨rfl, rfl⟩, ?_⟩
+    · intro s' hx' h
+      exact h.mono (st := st) rfl rfl id Or.inl (fun _ ht => ht) rfl rfl
+    · intro hx' h
+      exact Or.inl (h.congr (st := st) rfl rfl rfl)
+  · exact Frame.refl s st
+
+theorem mem_insertSorted_of {x y : Nat} {l : List Nat} (h : y = x ∨ y ∈ l) : y ∈ insertSorted x l := by
+  induction l with
+  | nil =>
+    rcases h with h | h
+    · simp [insertSorted, h]
+    · simp at h
+  | cons z r ih =>
+    simp only [insertSorted]
+    split
+    · rcases h with h | h
+      · simp [h]
+      · exact List.mem_cons_of_mem _ h
+    · split
+      · next he =>
+        rcases h with h | h
+        · rw [h, he]; simp
+        · exact h
+      · rcases h with h | h
+        · exact List.mem_cons_of_mem _ (ih (Or.inl h))
+        · rcases List.mem_cons.mp h with h | h
+          · simp [h]
+          · exact List.mem_cons_of_mem _ (ih (Or.inr h))
+
+theorem mem_foldr_insertSorted {l : List Nat} {y : Nat} : y ∈ l.foldr insertSorted [] ↔ y ∈ l := by
+  induction l with
+  | nil => simp
+  | cons x r ih =>
+    rw [List.foldr_cons, List.mem_cons]
+    constructor
+    · intro h
+      rcases mem_insertSorted h with h | h
+      · exact Or.inl h
+      · exact Or.inr (ih.mp h)
+    · intro h
+      rcases h with h | h
+      · exact mem_insertSorted_of (Or.inl h)
+      · exact mem_insertSorted_of (Or.inr (ih.mpr h))
+
+theorem mem_touchedOf {st : St} {s : Nat} {xs : List Nat} {hx : Nat} :
+    hx ∈ touchedOf st s xs ↔ hx ∈ xs ∧ hx ∈ subsOf st s := by
+  unfold touchedOf
+  rw [mem_foldr_insertSorted, List.mem_filter, List.contains_iff_mem]
+
+theorem sessionNotify_spec (f : Flags) (hb : f.batch = false) (hr : f.recheck = true) (s : Nat)
+    (xs : List Nat) (hc : Bool) (st : St)
+    (hcache : ∀ hx v, lookup hx st.cache = some v → validC st hx v)
+    (hl : st.held.length = st.subs.length) (hlm : st.ms.length = st.subs.length) :
+    Frame s st (sessionNotify f st s xs hc) ∧
+    (aliveOf st s = true → ∀ hx, hx ∈ subsOf st s → (hx ∈ xs ∨ (hc = true ∧ FlipStale st s hx)) →
+      HeldOK (sessionNotify f st s xs hc) s hx) := by
+  unfold sessionNotify
+  by_cases ha : aliveOf st s = true
+  · simp only [ha, Bool.not_true, Bool.false_eq_true, if_false]
+    have F0 := hdrNotify_frame st s hc
+    split
+    · next hcond =>
+      obtain ⟨F, H⟩ := notifyGo_spec f hb hr s (touchedOf st s xs) (hdrNotify st s hc)
+        (fun hx' v' h' => F0.validC (hcache hx' v' (by rw [F0.cache] at h'; exact h')))
+        (by rw [F0.lenHeld, F0.subs]; exact hl) (by rw [F0.lenMs, F0.subs]; exact hlm)
+      refine ⟨F0.trans F, ?_⟩
+      intro _ hx hs h
+      rcases h with h | ⟨_, h⟩
+      · exact H hx (by rw [F0.subsOf]; exact hs) (Or.inl (mem_touchedOf.mpr ⟨h, hs⟩))
+      · rcases F0.flipStale hx h with h | h
+        · exact H hx (by rw [F0.subsOf]; exact hs) (Or.inr h)
+        · exact F.heldOK _ _ h
+    · next hcond =>
+      refine ⟨F0, ?_⟩
+      intro _ hx hs h
+      exfalso
+      apply hcond
+      rcases h with h | ⟨hhc, c, m, _, _, h3⟩
+      · have : hx ∈ touchedOf st s xs := mem_touchedOf.mpr ⟨h, hs⟩
+        cases ht : touchedOf st s xs with
+        | nil => rw [ht] at this; simp at this
+        | cons a r => simp
+      · have : hx ∈ (msOf st s).map Prod.fst := mem_keys_of_lookup h3
+        cases hm : msOf st s with
+        | nil => rw [hm] at this; simp at this
+        | cons a r => simp [hhc]
+  · have ha' : aliveOf st s = false := by
+      cases h : aliveOf st s
+      · rfl
+      · exact absurd h ha
+    simp only [ha', Bool.not_false, if_true]
+    exact ⟨Frame.refl s st, fun h => by cases h⟩
 
 /-- the per-session loop of `_notify_sessions` over the sessions `ss` -/
-theorem notifyAll_spec (f : Flags) (hb : f.batch = false) (X : List Nat) (ss : List Nat) (st : St)
-    (hc : ∀ hx v, lookup hx st.cache = some v → valid st hx v)
-    (hl : st.held.length = st.subs.length) :
-    Frame st (ss.foldl (fun acc s => notifyGo f acc s
-        ((X.filter (subsOf acc s).contains).mergeSort (fun a b => decide (a ≤ b))).eraseDups []) st) ∧
-    ∀ s ∈ ss, ∀ hx ∈ X, hx ∈ subsOf st s →
-      HeldOK (ss.foldl (fun acc s => notifyGo f acc s
-        ((X.filter (subsOf acc s).contains).mergeSort (fun a b => decide (a ≤ b))).eraseDups []) st) s hx := by
+theorem notifyAll_spec (f : Flags) (hb : f.batch = false) (hr : f.recheck = true) (xs : List Nat) (hc : Bool)
+    (ss : List Nat) (st : St)
+    (hcache : ∀ hx v, lookup hx st.cache = some v → validC st hx v)
+    (hl : st.held.length = st.subs.length) (hlm : st.ms.length = st.subs.length) :
+    Frame0 st (ss.foldl (fun acc s => sessionNotify f acc s xs hc) st) ∧
+    ∀ s ∈ ss, aliveOf st s = true → ∀ hx, hx ∈ subsOf st s →
+      (hx ∈ xs ∨ (hc = true ∧ FlipStale st s hx)) →
+      HeldOK (ss.foldl (fun acc s => sessionNotify f acc s xs hc) st) s hx := by
   induction ss generalizing st with
-  | nil => exact ⟨Frame.refl st, fun s h => by simp at h⟩
-  | cons s ss ih =>
+  | nil => exact ⟨Frame0.refl st, fun s h => by simp at h⟩
+  | cons s0 ss ih =>
     rw [List.foldl_cons]
-    obtain ⟨F1, H1⟩ := notifyGo_spec f hb s
-      ((X.filter (subsOf st s).contains).mergeSort (fun a b => decide (a ≤ b))).eraseDups st hc hl
-    obtain ⟨F2, H2⟩ := ih _
-      (fun hx' v' h' => (F1.valid hx' v').mpr (hc hx' v' (by rw [F1.cache] at h'; exact h')))
-      (by rw [F1.lenHeld, F1.subs]; exact hl)
-    refine ⟨F1.trans F2, ?_⟩
-    intro s' hs' hx hX hsub
-    rcases List.mem_cons.mp hs' with rfl | hs'
-    · apply F2.heldOK
-      apply H1 hx _ hsub
-      rw [List.mem_eraseDups, List.mem_mergeSort, List.mem_filter]
-      exact ⟨hX, List.contains_iff_mem.mpr hsub⟩
-    · exact H2 s' hs' hx hX (by rw [F1.subsOf]; exact hsub)
+    obtain ⟨F1, H1⟩ := sessionNotify_spec f hb hr s0 xs hc st hcache hl hlm
+    obtain ⟨F2, H2⟩ := ih (sessionNotify f st s0 xs hc)
+      (fun hx' v' h' => F1.validC (hcache hx' v' (by rw [F1.cache] at h'; exact h')))
+      (by rw [F1.lenHeld, F1.subs]; exact hl) (by rw [F1.lenMs, F1.subs]; exact hlm)
+    refine ⟨F1.toFrame0.trans F2, ?_⟩
+    intro s hs' ha hx hsub h
+    by_cases hss : s = s0
+    · subst hss
+      exact F2.heldOK _ _ (H1 ha hx hsub h)
+    · rcases List.mem_cons.mp hs' with rfl | hs'
+      · exact absurd rfl hss
+      · apply H2 s hs' (by rw [F1.aliveOf]; exact ha) hx (by rw [F1.subsOf]; exact hsub)
+        rcases h with h | ⟨hhc, h⟩
+        · exact Or.inl h
+        · exact Or.inr ⟨hhc, h.congr (F1.confOf hx) (F1.other s hss hx).2 (F1.other s hss hx).1⟩
 
-theorem HeldOK.congr {st st' : St} (hh : st'.held = st.held) (hc : st'.cur = st.cur)
-    (hca : st'.carrier = st.carrier) (ht : st'.tasks = st.tasks) (s hx : Nat) :
-    HeldOK st' s hx ↔ HeldOK st s hx := by
-  simp only [HeldOK, heldOf, valid, curOf, Pending, hh, hc, hca, ht]
+/-- as `HeldOK.mono`, when an owed re-check may disappear under condition `Q` (its notification's
+    session loop is about to run) -/
+theorem HeldOK.mono' {st st' : St} {s hx : Nat} {Q : Prop}
+    (hconf : confOf st' hx = confOf st hx) (hmem : memOf st' hx = memOf st hx)
+    (howed : Owed st hx → Owed st' hx) (howedF : OwedF st hx → OwedF st' hx ∨ Q)
+    (htasks : ∀ t ∈ st.tasks, t ∈ st'.tasks)
+    (hheld : heldOf st' s hx = heldOf st s hx)
+    (hms : lookup hx (msOf st' s) = lookup hx (msOf st s))
+    (h : HeldOK st s hx) : HeldOK st' s hx ∨ (Q ∧ FlipStale st' s hx) := by
+  rcases h with h | h | ⟨c, m, h1, h2, h3⟩
+  · exact Or.inl (Or.inl (h.mono htasks))
+  · exact Or.inl (Or.inr (Or.inl (howed h)))
+  · rcases h3 with h3 | ⟨h3, h4⟩
+    · exact Or.inl (Or.inr (Or.inr ⟨c, m, by rw [hheld]; exact h1, by rw [hconf]; exact h2,
+        Or.inl (by rw [hmem]; exact h3)⟩))
+    · rcases h4 with h4 | h4 | h4
+      · exact Or.inl (Or.inr (Or.inr ⟨c, m, by rw [hheld]; exact h1, by rw [hconf]; exact h2,
+          Or.inr ⟨by rw [hms]; exact h3, Or.inl (by rw [hmem]; exact h4)⟩⟩))
+      · rcases howedF h4 with h5 | h5
+        · exact Or.inl (Or.inr (Or.inr ⟨c, m, by rw [hheld]; exact h1, by rw [hconf]; exact h2,
+            Or.inr ⟨by rw [hms]; exact h3, Or.inr (Or.inl h5)⟩⟩))
+        · exact Or.inr ⟨h5, c, m, by rw [hheld]; exact h1, by rw [hconf]; exact h2, by rw [hms]; exact h3⟩
+      · exact Or.inl (Or.inr (Or.inr ⟨c, m, by rw [hheld]; exact h1, by rw [hconf]; exact h2,
+          Or.inr ⟨by rw [hms]; exact h3, Or.inr (Or.inr (h4.mono htasks))⟩⟩))
+
+/-- `_notify_sessions` from the cache invalidation on re-establishes the invariant, from a state in
+    which the touched script hashes `xs` (and, if `hc`, the flips taken over) have lost their excuse -/
+theorem finishNotify_inv (f : Flags) (hb : f.batch = false) (hr : f.recheck = true) (st : St)
+    (xs : List Nat) (hc : Bool)
+    (hl : st.held.length = st.subs.length) (hlm : st.ms.length = st.subs.length)
+    (hcache : ∀ hx v, lookup hx st.cache = some v → validC st hx v ∨ hx ∈ xs)
+    (hreads : ∀ t ∈ st.tasks, ∀ c, t.value = some c → t.countAtStart = st.notifyCount → valid0 st t.hx c)
+    (hcounts : ∀ t ∈ st.tasks, t.countAtStart ≤ st.notifyCount)
+    (hnochg : ∀ t ∈ st.tasks, (∀ s rest ch, t.cont = .notify s rest ch → ch = []) ∧
+      (∀ s old rest ch, t.cont = .notify2 s old rest ch → ch = []))
+    (hsubhx : ∀ t ∈ st.tasks, ∀ s x, t.cont = .sub s x → t.hx = x)
+    (hheld : ∀ s hx, aliveOf st s = true → hx ∈ subsOf st s →
+      HeldOK st s hx ∨ hx ∈ xs ∨ (hc = true ∧ FlipStale st s hx)) :
+    Inv (finishNotify f st xs hc) := by
+  unfold finishNotify
+  have hcache1 : ∀ hx v, lookup hx ({ st with cache := st.cache.filter (fun e => !xs.contains e.1) } : St).cache = some v →
+      validC { st with cache := st.cache.filter (fun e => !xs.contains e.1) } hx v := by
+    intro hx v hlk
+    simp only at hlk
+    rw [lookup_filter (fun k => !xs.contains k)] at hlk
+    split at hlk
+    · next hq =>
+      rcases hcache hx v hlk with h | h
+      · exact h
+      · rw [List.contains_iff_mem.mpr h] at hq; simp at hq
+    · cases hlk
+  have hbase : Base { st with cache := st.cache.filter (fun e => !xs.contains e.1) } :=
+    ⟨hl, hlm, hcache1, hreads, hcounts, hnochg, hsubhx⟩
+  obtain ⟨F, H⟩ := notifyAll_spec f hb hr xs hc (List.range st.subs.length)
+    { st with cache := st.cache.filter (fun e => !xs.contains e.1) } hcache1 hl hlm
+  refine Inv.of_base (F.base hbase) ?_
+  intro s hx ha hs
+  rw [F.aliveOf] at ha
+  rw [F.subsOf] at hs
+  rcases hheld s hx ha hs with h | h | h
+  · exact F.heldOK _ _ h
+  · exact H s (List.mem_range.mpr (lt_of_mem_subsOf hs)) ha hx hs (Or.inl h)
+  · exact H s (List.mem_range.mpr (lt_of_mem_subsOf hs)) ha hx hs (Or.inr h)
+
+/-- events that leave the tasks alone and only weaken nothing -/
+theorem Inv.transfer {st st' : St} (h : Inv st)
+    (hl : st'.held.length = st'.subs.length) (hlm : st'.ms.length = st'.subs.length)
+    (hcache : ∀ hx v, lookup hx st'.cache = some v → lookup hx st.cache = some v)
+    (hvalidC : ∀ hx c, validC st hx c → validC st' hx c)
+    (htasks : st'.tasks = st.tasks) (hcount : st.notifyCount ≤ st'.notifyCount)
+    (hvalid0 : st'.notifyCount = st.notifyCount → ∀ hx c, valid0 st hx c → valid0 st' hx c)
+    (hheld : ∀ s hx, aliveOf st' s = true → hx ∈ subsOf st' s →
+      aliveOf st s = true ∧ hx ∈ subsOf st s ∧ (HeldOK st s hx → HeldOK st' s hx)) : Inv st' := by
+  refine ⟨⟨hl, hlm, fun hx v hlk => hvalidC hx v (h.cache hx v (hcache hx v hlk)), ?_, ?_, ?_, ?_⟩, ?_⟩
+  · intro t ht c hv hc
+    rw [htasks] at ht
+    have hle := h.counts t ht
+    have he : st'.notifyCount = st.notifyCount := by omega
+    exact hvalid0 he _ _ (h.reads t ht c hv (by omega))
+  · intro t ht
+    rw [htasks] at ht
+    have := h.counts t ht
+    omega
+  · intro t ht; rw [htasks] at ht; exact h.nochg t ht
+  · intro t ht; rw [htasks] at ht; exact h.subhx t ht
+  · intro s hx ha hs
+    obtain ⟨ha', hs', himp⟩ := hheld s hx ha hs
+    exact himp (h.held s hx ha' hs')
 
 /-! ### the events -/
 
-theorem inv_change (f : Flags) (st : St) (x : Nat) (h : Inv st) : Inv (step f st (.change x)) := by
-  have hv : ∀ hx v, valid st hx v → valid (step f st (.change x)) hx v := by
-    intro hx v hval
-    simp only [valid, step, curOf, List.getD_eq_getElem?_getD, getElem?_modifyAt]
-    by_cases hx' : hx = x
-    · subst hx'
-      right
-      by_cases hm : hx ∈ st.carrier
-      · simp [hm]
-      · simp [hm]
-    · rw [if_neg hx']
-      rcases hval with hval | hval
-      · left; simpa [curOf, List.getD_eq_getElem?_getD] using hval
-      · right
-        split
-        · exact hval
-        · exact List.mem_append_left _ hval
-  refine ⟨h.lens, fun hx v hl => hv hx v (h.cache hx v hl),
-    fun t ht v hvv hc => hv _ _ (h.reads t ht v hvv hc), h.counts, ?_, h.nochg, h.subhx⟩
-  intro s hx hs
-  rcases h.held s hx hs with ⟨v, h1, h2⟩ | hp
-  · exact Or.inl ⟨v, h1, hv hx v h2⟩
-  · exact Or.inr hp
+theorem mem_addIfAbsent (l : List Nat) (x : Nat) :
+    x ∈ (if l.contains x then l else l ++ [x]) ∧ ∀ y ∈ l, y ∈ (if l.contains x then l else l ++ [x]) := by
+  by_cases h : l.contains x = true
+  · rw [if_pos h]; exact ⟨List.contains_iff_mem.mp h, fun _ hy => hy⟩
+  · rw [if_neg h]; exact ⟨by simp, fun _ hy => List.mem_append_left _ hy⟩
 
-/-- the state of `_notify_sessions` before the session loop -/
-def notifyPre (st : St) (xs : List Nat) : St :=
-  { st with
-    carrier := st.carrier.filter (fun x => !xs.contains x),
-    notifyCount := st.notifyCount + 1,
-    cache := st.cache.filter (fun e => !((xs.filter st.carrier.contains).contains e.1)) }
+theorem getD_modifyAt_ne {α : Type} (l : List α) (i : Nat) (g : α → α) (j : Nat) (d : α) (h : j ≠ i) :
+    (modifyAt l i g).getD j d = l.getD j d := by
+  rw [getD_modifyAt, if_neg (fun hh => h hh.1)]
 
-theorem step_notify_eq (f : Flags) (st : St) (xs : List Nat) :
-    step f st (.notify xs) =
-      (List.range st.subs.length).foldl (fun acc s => notifyGo f acc s
-        (((xs.filter st.carrier.contains).filter (subsOf acc s).contains).mergeSort
-          (fun a b => decide (a ≤ b))).eraseDups []) (notifyPre st xs) := rfl
+/-- a carried change of `x` (block / back-out / mempool refresh touching it) -/
+theorem inv_carried {st st' : St} (x : Nat) (h : Inv st)
+    (e_held : st'.held = st.held) (e_ms : st'.ms = st.ms) (e_subs : st'.subs = st.subs)
+    (e_alive : st'.alive = st.alive) (e_tasks : st'.tasks = st.tasks) (e_cache : st'.cache = st.cache)
+    (e_count : st'.notifyCount = st.notifyCount) (e_lost : st'.lost = st.lost)
+    (e_supp : st'.suppressed = st.suppressed) (e_hreads : st'.hreads = st.hreads)
+    (e_flipped : st'.flipped = st.flipped)
+    (hcar : st'.carrier = if st.carrier.contains x then st.carrier else st.carrier ++ [x])
+    (hconf : ∀ hx, hx ≠ x → confOf st' hx = confOf st hx)
+    (hmem : ∀ hx, hx ≠ x → memOf st' hx = memOf st hx) : Inv st' := by
+  have hx_owed : Owed st' x := Or.inl (by rw [hcar]; exact (mem_addIfAbsent _ _).1)
+  have howed : ∀ hx, Owed st hx → Owed st' hx := by
+    intro hx ho
+    rcases ho with ho | ho | ho | ho
+    · exact Or.inl (by rw [hcar]; exact (mem_addIfAbsent _ _).2 hx ho)
+    · exact Or.inr (Or.inl (by rw [e_lost]; exact ho))
+    · exact Or.inr (Or.inr (Or.inl (by rw [e_supp]; exact ho)))
+    · exact Or.inr (Or.inr (Or.inr (by rw [e_hreads]; exact ho)))
+  apply h.transfer
+  · rw [e_held, e_subs]; exact h.lens
+  · rw [e_ms, e_subs]; exact h.lenMs
+  · intro hx v hlk; rw [e_cache] at hlk; exact hlk
+  · intro hx c hv
+    by_cases he : hx = x
+    · subst he; exact Or.inr hx_owed
+    · rcases hv with hv | hv
+      · exact Or.inl (by rw [hconf hx he]; exact hv)
+      · exact Or.inr (howed hx hv)
+  · exact e_tasks
+  · rw [e_count]; exact Nat.le_refl _
+  · intro _ hx c hv
+    by_cases he : hx = x
+    · subst he; exact Or.inr (by rw [hcar]; exact (mem_addIfAbsent _ _).1)
+    · rcases hv with hv | hv
+      · exact Or.inl (by rw [hconf hx he]; exact hv)
+      · exact Or.inr (by rw [hcar]; exact (mem_addIfAbsent _ _).2 hx hv)
+  · intro s hx ha hs
+    refine ⟨by simpa only [aliveOf, e_alive] using ha, by simpa only [subsOf, e_subs] using hs, ?_⟩
+    intro hok
+    by_cases he : hx = x
+    · subst he; exact Or.inr (Or.inl hx_owed)
+    · refine hok.mono (hconf hx he) (hmem hx he) (howed hx) ?_ (by rw [e_tasks]; exact fun _ ht => ht)
+        (by simp only [heldOf, e_held]) (by simp only [msOf, e_ms])
+      intro hf
+      rcases hf with hf | hf
+      · exact Or.inl (Or.inl (by rw [e_flipped]; exact hf))
+      · exact Or.inl (Or.inr (by rw [e_hreads]; exact hf))
 
-theorem valid_notifyPre {st : St} {xs : List Nat} {hx v : Nat} (hv : valid st hx v)
-    (hn : hx ∉ xs.filter st.carrier.contains) : valid (notifyPre st xs) hx v := by
-  rcases hv with hv | hv
-  · exact Or.inl hv
-  · right
-    simp only [notifyPre, List.mem_filter]
-    refine ⟨hv, ?_⟩
-    have : hx ∉ xs := fun hm => hn (List.mem_filter.mpr ⟨hm, List.contains_iff_mem.mpr hv⟩)
-    simp [this]
+theorem inv_change (f : Flags) (st : St) (x : Nat) (h : Inv st) : Inv (step f st (.change x)) :=
+  inv_carried x h rfl rfl rfl rfl rfl rfl rfl rfl rfl rfl rfl rfl
+    (fun hx he => by simp only [confOf, step]; exact getD_modifyAt_ne _ _ _ _ _ he) (fun _ _ => rfl)
 
-theorem inv_notify (f : Flags) (hb : f.batch = false) (st : St) (xs : List Nat) (h : Inv st) :
-    Inv (step f st (.notify xs)) := by
-  rw [step_notify_eq]
-  have hcache : ∀ hx v, lookup hx (notifyPre st xs).cache = some v → valid (notifyPre st xs) hx v := by
-    intro hx v hl
-    simp only [notifyPre] at hl
-    rw [lookup_filter (fun k => !((xs.filter st.carrier.contains).contains k))] at hl
-    split at hl
-    · next hq =>
-      refine valid_notifyPre (h.cache hx v hl) ?_
-      intro hm
-      rw [List.contains_iff_mem.mpr hm] at hq
-      simp at hq
-    · cases hl
-  have hbase : Base (notifyPre st xs) := by
-    refine ⟨h.lens, hcache, ?_, ?_, h.nochg, h.subhx⟩
-    · intro t ht v _ hc
-      have := h.counts t ht
-      simp only [notifyPre] at hc
+theorem inv_mpChange (f : Flags) (st : St) (x m : Nat) (h : Inv st) : Inv (step f st (.mpChange x m)) :=
+  inv_carried x h rfl rfl rfl rfl rfl rfl rfl rfl rfl rfl rfl rfl (fun _ _ => rfl)
+    (fun hx he => by simp only [memOf, step]; exact getD_modifyAt_ne _ _ _ _ _ he)
+
+theorem inv_flip (f : Flags) (st : St) (x m : Nat) (h : Inv st) : Inv (step f st (.flip x m)) := by
+  simp only [step]
+  split
+  · next hcond =>
+    have hm0 : memOf st x ≠ 0 := by
+      intro h0; rw [h0] at hcond; simp at hcond
+    have hxF : OwedF ({ st with mem := modifyAt st.mem x (fun _ => m), flipped := if st.flipped.contains x then st.flipped else st.flipped ++ [x] } : St) x :=
+      Or.inl (mem_addIfAbsent _ _).1
+    apply h.transfer
+    · exact h.lens
+    · exact h.lenMs
+    · exact fun _ _ hlk => hlk
+    · exact fun _ _ hv => hv
+    · rfl
+    · exact Nat.le_refl _
+    · exact fun _ _ _ hv => hv
+    · intro s hx ha hs
+      refine ⟨ha, hs, ?_⟩
+      intro hok
+      by_cases he : hx = x
+      · subst he
+        rcases hok with hok | hok | ⟨c, m', h1, h2, h3⟩
+        · exact Or.inl hok
+        · exact Or.inr (Or.inl hok)
+        · rcases h3 with ⟨_, h3⟩ | ⟨h3, _⟩
+          · exact absurd h3 hm0
+          · exact Or.inr (Or.inr ⟨c, m', h1, h2, Or.inr ⟨h3, Or.inr (Or.inl hxF)⟩⟩)
+      · refine hok.mono (st := st) rfl ?_ id ?_ (fun _ ht => ht) rfl rfl
+        · simp only [memOf]; exact getD_modifyAt_ne _ _ _ _ _ he
+        · intro hf
+          rcases hf with hf | hf
+          · exact Or.inl (Or.inl ((mem_addIfAbsent _ _).2 hx hf))
+          · exact Or.inl (Or.inr hf)
+  · exact h
+
+/-- events that only touch the chain / tip / header-subscription fields -/
+theorem inv_tipOnly {st st' : St} (h : Inv st)
+    (e_conf : st'.conf = st.conf) (e_mem : st'.mem = st.mem) (e_carrier : st'.carrier = st.carrier)
+    (e_held : st'.held = st.held) (e_ms : st'.ms = st.ms) (e_subs : st'.subs = st.subs)
+    (e_alive : st'.alive = st.alive) (e_tasks : st'.tasks = st.tasks) (e_cache : st'.cache = st.cache)
+    (e_count : st'.notifyCount = st.notifyCount) (e_lost : st'.lost = st.lost)
+    (e_supp : st'.suppressed = st.suppressed) (e_hreads : st'.hreads = st.hreads)
+    (e_flipped : st'.flipped = st.flipped) : Inv st' := by
+  have hO : ∀ hx, Owed st' hx ↔ Owed st hx := by
+    intro hx; simp only [Owed, e_carrier, e_lost, e_supp, e_hreads]
+  have hOF : ∀ hx, OwedF st' hx ↔ OwedF st hx := by
+    intro hx; simp only [OwedF, e_flipped, e_hreads]
+  apply h.transfer
+  · rw [e_held, e_subs]; exact h.lens
+  · rw [e_ms, e_subs]; exact h.lenMs
+  · intro hx v hlk; rw [e_cache] at hlk; exact hlk
+  · intro hx c hv
+    simp only [validC, hO, confOf, e_conf]; exact hv
+  · exact e_tasks
+  · rw [e_count]; exact Nat.le_refl _
+  · intro _ hx c hv
+    simp only [valid0, confOf, e_conf, e_carrier]; exact hv
+  · intro s hx ha hs
+    refine ⟨by simpa only [aliveOf, e_alive] using ha, by simpa only [subsOf, e_subs] using hs, ?_⟩
+    intro hok
+    exact hok.mono (by simp only [confOf, e_conf]) (by simp only [memOf, e_mem]) (hO hx).mpr
+      (fun hf => Or.inl ((hOF hx).mpr hf)) (by rw [e_tasks]; exact fun _ ht => ht)
+      (by simp only [heldOf, e_held]) (by simp only [msOf, e_ms])
+
+theorem inv_advance (f : Flags) (st : St) (d : Nat) (h : Inv st) : Inv (step f st (.advance d)) :=
+  inv_tipOnly h rfl rfl rfl rfl rfl rfl rfl rfl rfl rfl rfl rfl rfl rfl
+
+theorem inv_backup (f : Flags) (st : St) (h : Inv st) : Inv (step f st .backup) := by
+  simp only [step]
+  split
+  · exact h
+  · exact inv_tipOnly h rfl rfl rfl rfl rfl rfl rfl rfl rfl rfl rfl rfl rfl rfl
+
+theorem inv_reorgSignal (f : Flags) (st : St) (h : Inv st) : Inv (step f st .reorgSignal) :=
+  inv_tipOnly h rfl rfl rfl rfl rfl rfl rfl rfl rfl rfl rfl rfl rfl rfl
+
+theorem inv_subscribeHeaders (f : Flags) (st : St) (s : Nat) (h : Inv st) :
+    Inv (step f st (.subscribeHeaders s)) :=
+  inv_tipOnly h rfl rfl rfl rfl rfl rfl rfl rfl rfl rfl rfl rfl rfl rfl
+
+theorem inv_unsubscribe (f : Flags) (st : St) (s x : Nat) (h : Inv st) :
+    Inv (step f st (.unsubscribe s x)) := by
+  simp only [step]
+  apply h.transfer
+  · simp only [length_modifyAt]; exact h.lens
+  · simp only [length_modifyAt]; exact h.lenMs
+  · exact fun _ _ hlk => hlk
+  · exact fun _ _ hv => hv
+  · rfl
+  · exact Nat.le_refl _
+  · exact fun _ _ _ hv => hv
+  · intro s' hx ha hs
+    have hs2 : hx ∈ subsOf st s' ∧ (s' = s → hx ≠ x) := by
+      simp only [subsOf, getD_modifyAt] at hs
+      split at hs
+      · next hc =>
+        rw [List.mem_filter] at hs
+        exact ⟨hs.1, fun _ he => by subst he; simp at hs⟩
+      · next hc =>
+        refine ⟨hs, fun he hxe => ?_⟩
+        subst he
+        have : ¬ s' < st.subs.length := fun hl => hc ⟨rfl, hl⟩
+        have hn : st.subs[s']? = none := List.getElem?_eq_none (by omega)
+        simp [List.getD_eq_getElem?_getD, hn] at hs
+    refine ⟨ha, hs2.1, ?_⟩
+    intro hok
+    refine hok.mono (st := st) rfl rfl id Or.inl (fun _ ht => ht) rfl ?_
+    simp only [msOf, getD_modifyAt]
+    split
+    · next hc =>
+      rw [lookup_dictErase, if_neg (hs2.2 hc.1)]
+    · rfl
+
+theorem inv_closeSession (f : Flags) (st : St) (s : Nat) (h : Inv st) :
+    Inv (step f st (.closeSession s)) := by
+  simp only [step]
+  apply h.transfer
+  · exact h.lens
+  · exact h.lenMs
+  · exact fun _ _ hlk => hlk
+  · exact fun _ _ hv => hv
+  · rfl
+  · exact Nat.le_refl _
+  · exact fun _ _ _ hv => hv
+  · intro s' hx ha hs
+    refine ⟨?_, hs, fun hok => hok.mono (st := st) rfl rfl id Or.inl (fun _ ht => ht) rfl rfl⟩
+    simp only [aliveOf, getD_modifyAt] at ha
+    split at ha
+    · cases ha
+    · exact ha
+
+theorem inv_evict (f : Flags) (st : St) (x : Nat) (h : Inv st) : Inv (step f st (.evict x)) := by
+  simp only [step]
+  apply h.transfer
+  · exact h.lens
+  · exact h.lenMs
+  · intro hx v hlk
+    simp only at hlk
+    rw [lookup_filter (fun k => k != x)] at hlk
+    split at hlk
+    · exact hlk
+    · cases hlk
+  · exact fun _ _ hv => hv
+  · rfl
+  · exact Nat.le_refl _
+  · exact fun _ _ _ hv => hv
+  · intro s' hx ha hs
+    exact ⟨ha, hs, fun hok => hok.mono (st := st) rfl rfl id Or.inl (fun _ ht => ht) rfl rfl⟩
+
+/-- events that only change `hreads` (and ghost sets), keeping every excuse -/
+theorem inv_hreadsOnly {st st' : St} (h : Inv st)
+    (e_conf : st'.conf = st.conf) (e_mem : st'.mem = st.mem)
+    (e_held : st'.held = st.held) (e_ms : st'.ms = st.ms) (e_subs : st'.subs = st.subs)
+    (e_alive : st'.alive = st.alive) (e_tasks : st'.tasks = st.tasks) (e_cache : st'.cache = st.cache)
+    (hcount : st.notifyCount ≤ st'.notifyCount)
+    (hcar : st'.notifyCount = st.notifyCount → ∀ x ∈ st.carrier, x ∈ st'.carrier)
+    (howed : ∀ hx, Owed st hx → Owed st' hx)
+    (howedF : ∀ hx, OwedF st hx → OwedF st' hx ∨ Owed st' hx) : Inv st' := by
+  apply h.transfer
+  · rw [e_held, e_subs]; exact h.lens
+  · rw [e_ms, e_subs]; exact h.lenMs
+  · intro hx v hlk; rw [e_cache] at hlk; exact hlk
+  · intro hx c hv
+    rcases hv with hv | hv
+    · exact Or.inl (by simp only [confOf, e_conf]; exact hv)
+    · exact Or.inr (howed hx hv)
+  · exact e_tasks
+  · exact hcount
+  · intro he hx c hv
+    rcases hv with hv | hv
+    · exact Or.inl (by simp only [confOf, e_conf]; exact hv)
+    · exact Or.inr (hcar he hx hv)
+  · intro s hx ha hs
+    refine ⟨by simpa only [aliveOf, e_alive] using ha, by simpa only [subsOf, e_subs] using hs, ?_⟩
+    intro hok
+    exact hok.mono (by simp only [confOf, e_conf]) (by simp only [memOf, e_mem]) (howed hx)
+      (howedF hx) (by rw [e_tasks]; exact fun _ ht => ht)
+      (by simp only [heldOf, e_held]) (by simp only [msOf, e_ms])
+
+theorem inv_hdrDo (f : Flags) (st : St) (i : Nat) (h : Inv st) : Inv (step f st (.hdrDo i)) := by
+  simp only [step]
+  cases nthIdxH st.hreads false i with
+  | none => exact h
+  | some j =>
+    simp only
+    have key : ∀ r ∈ st.hreads, ∃ r' ∈ modifyAt st.hreads j (fun r => { r with value := some st.chain[r.h]? }),
+        r'.xs = r.xs ∧ r'.flips = r.flips := by
+      intro r hr
+      rcases mem_modifyAt_of_mem j (fun r => { r with value := some st.chain[r.h]? }) hr with h' | h'
+      · exact ⟨_, h', rfl, rfl⟩
+      · exact ⟨_, h', rfl, rfl⟩
+    apply inv_hreadsOnly h
+    iterate 8 exact rfl
+    · exact Nat.le_refl _
+    · exact fun _ _ hx => hx
+    · intro hx ho
+      rcases ho with ho | ho | ho | ⟨r, hr, ho⟩
+      · exact Or.inl ho
+      · exact Or.inr (Or.inl ho)
+      · exact Or.inr (Or.inr (Or.inl ho))
+      · obtain ⟨r', hr', e1, _⟩ := key r hr
+        exact Or.inr (Or.inr (Or.inr ⟨r', hr', by rw [e1]; exact ho⟩))
+    · intro hx ho
+      rcases ho with ho | ⟨r, hr, ho⟩
+      · exact Or.inl (Or.inl ho)
+      · obtain ⟨r', hr', _, e2⟩ := key r hr
+        exact Or.inl (Or.inr ⟨r', hr', by rw [e2]; exact ho⟩)
+
+theorem mem_filter_not_contains {l xs : List Nat} {x : Nat} (h : x ∈ l) (hn : x ∉ xs) :
+    x ∈ l.filter (fun y => !xs.contains y) := by
+  rw [List.mem_filter]
+  exact ⟨h, by simp [hn]⟩
+
+theorem inv_notify (f : Flags) (hb : f.batch = false) (hr : f.recheck = true) (st : St) (ht : Nat)
+    (xs : List Nat) (h : Inv st) : Inv (step f st (.notify ht xs)) := by
+  simp only [step]
+  split
+  · -- height changed: suspended in the header read; the new record takes over `xs` and the flips
+    apply inv_hreadsOnly h
+    iterate 8 exact rfl
+    · exact Nat.le_succ _
+    · intro he; simp at he
+    · intro hx ho
+      rcases ho with ho | ho | ho | ⟨r, hr', ho⟩
+      · by_cases hm : hx ∈ xs
+        · exact Or.inr (Or.inr (Or.inr ⟨_, List.mem_append_right _ (List.mem_singleton.mpr rfl), hm⟩))
+        · exact Or.inl (mem_filter_not_contains ho hm)
+      · exact Or.inr (Or.inl ho)
+      · exact Or.inr (Or.inr (Or.inl ho))
+      · exact Or.inr (Or.inr (Or.inr ⟨r, List.mem_append_left _ hr', ho⟩))
+    · intro hx ho
+      rcases ho with ho | ⟨r, hr', ho⟩
+      · exact Or.inl (Or.inr ⟨_, List.mem_append_right _ (List.mem_singleton.mpr rfl), ho⟩)
+      · exact Or.inl (Or.inr ⟨r, List.mem_append_left _ hr', ho⟩)
+  · -- same height: straight on to the invalidation and the session loop
+    have howed : ∀ hx, hx ∉ xs → Owed st hx →
+        Owed { st with notifyCount := st.notifyCount + 1,
+                       carrier := st.carrier.filter (fun x => !xs.contains x) } hx := by
+      intro hx hm ho
+      rcases ho with ho | ho | ho | ho
+      · exact Or.inl (mem_filter_not_contains ho hm)
+      · exact Or.inr (Or.inl ho)
+      · exact Or.inr (Or.inr (Or.inl ho))
+      · exact Or.inr (Or.inr (Or.inr ho))
+    apply finishNotify_inv f hb hr
+    · exact h.lens
+    · exact h.lenMs
+    · intro hx v hlk
+      by_cases hm : hx ∈ xs
+      · exact Or.inr hm
+      · rcases h.cache hx v hlk with hv | hv
+        · exact Or.inl (Or.inl hv)
+        · exact Or.inl (Or.inr (howed hx hm hv))
+    · intro t htm c hv hc
+      have := h.counts t htm
+      simp only at hc
       omega
-    · intro t ht
-      have := h.counts t ht
-      simp only [notifyPre]
+    · intro t htm
+      have := h.counts t htm
+      simp only
       omega
-  obtain ⟨F, H⟩ := notifyAll_spec f hb (xs.filter st.carrier.contains) (List.range st.subs.length)
-    (notifyPre st xs) hcache h.lens
-  refine Inv.of_base (F.base hbase) ?_
-  intro s hx hs
-  rw [F.subsOf] at hs
-  by_cases hX : hx ∈ xs.filter st.carrier.contains
-  · exact H s (List.mem_range.mpr (lt_of_mem_subsOf hs)) hx hX hs
-  · apply F.heldOK
-    rcases h.held s hx hs with ⟨v, h1, h2⟩ | hp
-    · exact Or.inl ⟨v, h1, valid_notifyPre h2 hX⟩
-    · exact Or.inr hp
+    · exact h.nochg
+    · exact h.subhx
+    · intro s hx ha hs
+      by_cases hm : hx ∈ xs
+      · exact Or.inr (Or.inl hm)
+      · exact Or.inl ((h.held s hx ha hs).mono (st := st) rfl rfl (howed hx hm) Or.inl (fun _ ht => ht) rfl rfl)
+
+theorem inv_hdrFinish (f : Flags) (hb : f.batch = false) (hr : f.recheck = true) (st : St) (i : Nat)
+    (h : Inv st) : Inv (step f st (.hdrFinish i)) := by
+  simp only [step]
+  cases nthIdxH st.hreads true i with
+  | none => exact h
+  | some j =>
+    simp only
+    cases hj : st.hreads[j]? with
+    | none => exact h
+    | some r =>
+      simp only
+      have hrm : r ∈ st.hreads := List.mem_iff_getElem?.mpr ⟨j, hj⟩
+      cases hval : r.value with
+      | none => exact h
+      | some v =>
+        cases v with
+        | some d =>
+          simp only
+          -- the header arrived: invalidate, then the session loop with height_changed = true
+          have howed : ∀ hx, hx ∉ r.xs → Owed st hx →
+              Owed { st with hreads := st.hreads.eraseIdx j, hsub := (r.h, d), notifiedHeight := r.h } hx := by
+            intro hx hm ho
+            rcases ho with ho | ho | ho | ⟨r', hr', ho⟩
+            · exact Or.inl ho
+            · exact Or.inr (Or.inl ho)
+            · exact Or.inr (Or.inr (Or.inl ho))
+            · rcases mem_eraseIdx_or hj hr' with rfl | hin
+              · exact absurd ho hm
+              · exact Or.inr (Or.inr (Or.inr ⟨r', hin, ho⟩))
+          apply finishNotify_inv f hb hr
+          · exact h.lens
+          · exact h.lenMs
+          · intro hx v hlk
+            by_cases hm : hx ∈ r.xs
+            · exact Or.inr hm
+            · rcases h.cache hx v hlk with hv | hv
+              · exact Or.inl (Or.inl hv)
+              · exact Or.inl (Or.inr (howed hx hm hv))
+          · exact h.reads
+          · exact h.counts
+          · exact h.nochg
+          · exact h.subhx
+          · intro s hx ha hs
+            by_cases hm : hx ∈ r.xs
+            · exact Or.inr (Or.inl hm)
+            · have := (h.held s hx ha hs).mono' (st := st)
+                (st' := { st with hreads := st.hreads.eraseIdx j, hsub := (r.h, d), notifiedHeight := r.h })
+                (Q := True) rfl rfl (howed hx hm) ?_ (fun _ ht => ht) rfl rfl
+              · rcases this with h1 | ⟨_, h1⟩
+                · exact Or.inl h1
+                · exact Or.inr (Or.inr ⟨rfl, h1⟩)
+              · intro hf
+                rcases hf with hf | ⟨r', hr', hf⟩
+                · exact Or.inl (Or.inl hf)
+                · rcases mem_eraseIdx_or hj hr' with rfl | hin
+                  · exact Or.inr trivial
+                  · exact Or.inl (Or.inr ⟨r', hin, hf⟩)
+        | none =>
+          simp only
+          split
+          · -- raised: the notification is lost
+            apply inv_hreadsOnly h
+            iterate 8 exact rfl
+            · exact Nat.le_refl _
+            · exact fun _ _ hx => hx
+            · intro hx ho
+              rcases ho with ho | ho | ho | ⟨r', hr', ho⟩
+              · exact Or.inl ho
+              · exact Or.inr (Or.inl (List.mem_append_left _ (List.mem_append_left _ ho)))
+              · exact Or.inr (Or.inr (Or.inl ho))
+              · rcases mem_eraseIdx_or hj hr' with rfl | hin
+                · exact Or.inr (Or.inl (List.mem_append_left _ (List.mem_append_right _ ho)))
+                · exact Or.inr (Or.inr (Or.inr ⟨r', hin, ho⟩))
+            · intro hx ho
+              rcases ho with ho | ⟨r', hr', ho⟩
+              · exact Or.inl (Or.inl ho)
+              · rcases mem_eraseIdx_or hj hr' with rfl | hin
+                · exact Or.inr (Or.inr (Or.inl (List.mem_append_right _ ho)))
+                · exact Or.inl (Or.inr ⟨r', hin, ho⟩)
+          · -- retried at the lowered height
+            apply inv_hreadsOnly h
+            iterate 8 exact rfl
+            · exact Nat.le_refl _
+            · exact fun _ _ hx => hx
+            · intro hx ho
+              rcases ho with ho | ho | ho | ⟨r', hr', ho⟩
+              · exact Or.inl ho
+              · exact Or.inr (Or.inl ho)
+              · exact Or.inr (Or.inr (Or.inl ho))
+              · rcases mem_eraseIdx_or hj hr' with rfl | hin
+                · exact Or.inr (Or.inr (Or.inr ⟨_, List.mem_append_right _ (List.mem_singleton.mpr rfl), ho⟩))
+                · exact Or.inr (Or.inr (Or.inr ⟨r', List.mem_append_left _ hin, ho⟩))
+            · intro hx ho
+              rcases ho with ho | ⟨r', hr', ho⟩
+              · exact Or.inl (Or.inl ho)
+              · rcases mem_eraseIdx_or hj hr' with rfl | hin
+                · exact Or.inl (Or.inr ⟨_, List.mem_append_right _ (List.mem_singleton.mpr rfl), ho⟩)
+                · exact Or.inl (Or.inr ⟨r', List.mem_append_left _ hin, ho⟩)
+
+/-! ### coroutines resuming with a history -/
 
 theorem mem_subsOf_modifyAt {st : St} {s x s' hx' : Nat}
     (h : hx' ∈ (modifyAt st.subs s (insertSorted x)).getD s' []) :
     hx' ∈ subsOf st s' ∨ (s' = s ∧ s < st.subs.length ∧ hx' = x) := by
-  rw [List.getD_eq_getElem?_getD, getElem?_modifyAt] at h
-  by_cases hs : s' = s
-  · subst hs
-    rw [if_pos rfl] at h
-    by_cases hl : s' < st.subs.length
-    · rw [List.getElem?_eq_getElem hl] at h
-      simp only [Option.map_some, Option.getD_some] at h
-      rcases mem_insertSorted h with h | h
-      · exact Or.inr ⟨rfl, hl, h⟩
-      · left; simp only [subsOf, List.getD_eq_getElem?_getD, List.getElem?_eq_getElem hl]; exact h
-    · rw [List.getElem?_eq_none (by omega)] at h
-      simp at h
-  · rw [if_neg hs] at h
-    left; simp only [subsOf, List.getD_eq_getElem?_getD]; exact h
+  rw [getD_modifyAt] at h
+  split at h
+  · next hc =>
+    obtain ⟨rfl, hl⟩ := hc
+    rcases mem_insertSorted h with h | h
+    · exact Or.inr ⟨rfl, hl, h⟩
+    · exact Or.inl h
+  · exact Or.inl h
+
+theorem HeldOK.map_tasks {st : St} {tasks' : List Task}
+    (hm : ∀ t ∈ st.tasks, ∃ t' ∈ tasks', t'.hx = t.hx ∧ t'.cont = t.cont) {s hx : Nat}
+    (h : HeldOK st s hx) : HeldOK { st with tasks := tasks' } s hx := by
+  have hP : Pending st s hx → Pending { st with tasks := tasks' } s hx := by
+    rintro ⟨t, ht, hc⟩
+    obtain ⟨t', ht', e1, e2⟩ := hm t ht
+    exact ⟨t', ht', by rw [e1, e2]; exact hc⟩
+  have hL : Loop2 st s → Loop2 { st with tasks := tasks' } s := by
+    rintro ⟨t, ht, hc⟩
+    obtain ⟨t', ht', _, e2⟩ := hm t ht
+    exact ⟨t', ht', by rw [e2]; exact hc⟩
+  rcases h with h | h | ⟨c, m, h1, h2, h3⟩
+  · exact Or.inl (hP h)
+  · exact Or.inr (Or.inl h)
+  · refine Or.inr (Or.inr ⟨c, m, h1, h2, ?_⟩)
+    rcases h3 with h3 | ⟨h3, h4⟩
+    · exact Or.inl h3
+    · rcases h4 with h4 | h4 | h4
+      · exact Or.inr ⟨h3, Or.inl h4⟩
+      · exact Or.inr ⟨h3, Or.inr (Or.inl h4)⟩
+      · exact Or.inr ⟨h3, Or.inr (Or.inr (hL h4))⟩
+
+/-- removing the task `t` (its read is accepted): what relied on it is now up to its continuation -/
+theorem HeldOK.erase_task {st : St} {j : Nat} {t : Task} (cache' : List (Nat × Nat))
+    (hj : st.tasks[j]? = some t) {s hx : Nat} (h : HeldOK st s hx) :
+    HeldOK { st with tasks := st.tasks.eraseIdx j, cache := cache' } s hx ∨
+    (∃ rest ch, t.cont = .notify s rest ch ∧ (t.hx = hx ∨ hx ∈ rest ∨
+        FlipStale { st with tasks := st.tasks.eraseIdx j, cache := cache' } s hx)) ∨
+    (∃ old rest ch, t.cont = .notify2 s old rest ch ∧ (t.hx = hx ∨ hx ∈ rest.map Prod.fst)) := by
+  rcases h with ⟨t', ht', hc⟩ | h | ⟨c, m, h1, h2, h3⟩
+  · rcases mem_eraseIdx_or hj ht' with rfl | hin
+    · rcases hc with ⟨rest, ch, hc, hm⟩ | ⟨old, rest, ch, hc, hm⟩
+      · rcases hm with hm | hm
+        · exact Or.inr (Or.inl ⟨rest, ch, hc, Or.inl hm⟩)
+        · exact Or.inr (Or.inl ⟨rest, ch, hc, Or.inr (Or.inl hm)⟩)
+      · exact Or.inr (Or.inr ⟨old, rest, ch, hc, hm⟩)
+    · exact Or.inl (Or.inl ⟨t', hin, hc⟩)
+  · exact Or.inl (Or.inr (Or.inl h))
+  · rcases h3 with h3 | ⟨h3, h4⟩
+    · exact Or.inl (Or.inr (Or.inr ⟨c, m, h1, h2, Or.inl h3⟩))
+    · rcases h4 with h4 | h4 | ⟨t', ht', rest, ch, hc⟩
+      · exact Or.inl (Or.inr (Or.inr ⟨c, m, h1, h2, Or.inr ⟨h3, Or.inl h4⟩⟩))
+      · exact Or.inl (Or.inr (Or.inr ⟨c, m, h1, h2, Or.inr ⟨h3, Or.inr (Or.inl h4)⟩⟩))
+      · rcases mem_eraseIdx_or hj ht' with rfl | hin
+        · exact Or.inr (Or.inl ⟨rest, ch, hc, Or.inr (Or.inr ⟨c, m, h1, h2, h3⟩)⟩)
+        · exact Or.inl (Or.inr (Or.inr ⟨c, m, h1, h2, Or.inr ⟨h3, Or.inr (Or.inr ⟨t', hin, rest, ch, hc⟩)⟩⟩))
 
 /-- continuing a coroutine with a valid history re-establishes the invariant; `st` may lack the
     `held` clause exactly for what the continuation is about to deliver / recompute -/
-theorem inv_resume (f : Flags) (hb : f.batch = false) (st : St) (hx v : Nat) (c : Cont)
-    (hbase : Base st) (hv : valid st hx v)
-    (hsub : ∀ s x, c = .sub s x → hx = x)
-    (hch : ∀ s rest ch, c = .notify s rest ch → ch = [])
-    (hheld : ∀ s' hx', hx' ∈ subsOf st s' →
-      HeldOK st s' hx' ∨ ∃ rest ch, c = .notify s' rest ch ∧ (hx = hx' ∨ hx' ∈ rest)) :
-    Inv (resume f st hx v c) := by
-  cases c with
+theorem inv_resume (f : Flags) (hb : f.batch = false) (hr : f.recheck = true) (st : St) (hx c : Nat)
+    (k : Cont) (hbase : Base st) (hv : validC st hx c)
+    (hsub : ∀ s x, k = .sub s x → hx = x)
+    (hch : (∀ s rest ch, k = .notify s rest ch → ch = []) ∧
+      (∀ s old rest ch, k = .notify2 s old rest ch → ch = []))
+    (hheld : ∀ s' hx', aliveOf st s' = true → hx' ∈ subsOf st s' → HeldOK st s' hx' ∨
+      (∃ rest ch, k = .notify s' rest ch ∧ (hx = hx' ∨ hx' ∈ rest ∨ FlipStale st s' hx')) ∨
+      (∃ old rest ch, k = .notify2 s' old rest ch ∧ (hx = hx' ∨ hx' ∈ rest.map Prod.fst))) :
+    Inv (resume f st hx c k) := by
+  have hlen : st.held.length = st.ms.length := by rw [hbase.lens, hbase.lenMs]
+  cases k with
   | query =>
     refine Inv.of_base hbase ?_
-    intro s' hx' hs
-    rcases hheld s' hx' hs with h | ⟨_, _, h, _⟩
+    intro s' hx' ha hs
+    rcases hheld s' hx' ha hs with h | ⟨_, _, h, _⟩ | ⟨_, _, _, h, _⟩
     · exact h
+    · cases h
     · cases h
   | sub s x =>
     obtain rfl := hsub s x rfl
-    have F1 := deliver_frame st s hx v hv
+    have F1 := send_frame st s hx c hv hlen
     have B1 := F1.base hbase
     simp only [resume]
-    refine Inv.of_base ⟨?_, B1.cache, B1.reads, B1.counts, B1.nochg, B1.subhx⟩ ?_
-    · show (deliver st s hx v).held.length = (modifyAt st.subs s (insertSorted hx)).length
+    refine Inv.of_base ⟨?_, ?_, B1.cache, B1.reads, B1.counts, B1.nochg, B1.subhx⟩ ?_
+    · show (send st s hx (c, memOf st hx)).held.length = (modifyAt st.subs s (insertSorted hx)).length
       rw [length_modifyAt, F1.lenHeld]; exact hbase.lens
-    · intro s' hx' hs
-      apply (HeldOK.congr (st := deliver st s hx v) rfl rfl rfl rfl s' hx').mpr
+    · show (send st s hx (c, memOf st hx)).ms.length = (modifyAt st.subs s (insertSorted hx)).length
+      rw [length_modifyAt, F1.lenMs]; exact hbase.lenMs
+    · intro s' hx' ha hs
+      show HeldOK (send st s hx (c, memOf st hx)) s' hx'
+      have ha' : aliveOf st s' = true := ha
       rcases mem_subsOf_modifyAt hs with hs | ⟨rfl, hl, rfl⟩
-      · rcases hheld s' hx' hs with h | ⟨_, _, h, _⟩
+      · rcases hheld s' hx' ha' hs with h | ⟨_, _, h, _⟩ | ⟨_, _, _, h, _⟩
         · exact F1.heldOK _ _ h
         · cases h
-      · exact deliver_heldOK st s' hx' v hv (by rw [hbase.lens]; exact hl)
+        · cases h
+      · exact send_heldOK st s' hx' c hv (by rw [hbase.lens]; exact hl) (by rw [hbase.lenMs]; exact hl)
   | notify s rest ch =>
-    obtain rfl := hch s rest ch rfl
-    have F1 := deliver_frame st s hx v hv
+    obtain rfl := hch.1 s rest ch rfl
+    have F1 := send_frame st s hx c hv hlen
     have B1 := F1.base hbase
-    simp only [resume, hb, Bool.false_eq_true, if_false]
-    obtain ⟨F2, H2⟩ := notifyGo_spec f hb s rest (deliver st s hx v) B1.cache B1.lens
+    simp only [resume, visit1_eq f hb]
+    obtain ⟨F2, H2⟩ := notifyGo_spec f hb hr s rest (send st s hx (c, memOf st hx)) B1.cache B1.lens B1.lenMs
     refine Inv.of_base (F2.base B1) ?_
-    intro s' hx' hs
+    intro s' hx' ha hs
+    rw [F2.aliveOf, F1.aliveOf] at ha
     rw [F2.subsOf, F1.subsOf] at hs
-    rcases hheld s' hx' hs with h | ⟨rest', ch', hc, hm⟩
+    rcases hheld s' hx' ha hs with h | ⟨rest', ch', hc, hm⟩ | ⟨_, _, _, hc, _⟩
     · exact F2.heldOK _ _ (F1.heldOK _ _ h)
     · cases hc
+      rcases hm with rfl | hm | hm
+      · exact F2.heldOK _ _ (send_heldOK st s hx c hv (by rw [hbase.lens]; exact lt_of_mem_subsOf hs)
+          (by rw [hbase.lenMs]; exact lt_of_mem_subsOf hs))
+      · exact H2 hx' (by rw [F1.subsOf]; exact hs) (Or.inl hm)
+      · rcases F1.flipStale hx' hm with hm | hm
+        · exact H2 hx' (by rw [F1.subsOf]; exact hs) (Or.inr hm)
+        · exact F2.heldOK _ _ hm
+    · cases hc
+  | notify2 s old rest ch =>
+    obtain rfl := hch.2 s old rest ch rfl
+    simp only [resume]
+    obtain ⟨F1, e2, H1⟩ := visit2_spec f hb st s hx c old [] hv hlen
+    have B1 := F1.base hbase
+    rw [e2]
+    obtain ⟨F2, H2⟩ := notifyGo2_spec f hb s rest (visit2 f st s hx c old []).1 B1.cache B1.lens B1.lenMs
+    refine Inv.of_base (F2.base B1) ?_
+    intro s' hx' ha hs
+    rw [F2.aliveOf, F1.aliveOf] at ha
+    rw [F2.subsOf, F1.subsOf] at hs
+    rcases hheld s' hx' ha hs with h | ⟨_, _, hc, _⟩ | ⟨old', rest', ch', hc, hm⟩
+    · exact F2.heldOK _ _ (F1.heldOK _ _ h)
+    · cases hc
+    · cases hc
       rcases hm with rfl | hm
-      · exact F2.heldOK _ _ (deliver_heldOK st s hx v hv (by rw [hbase.lens]; exact lt_of_mem_subsOf hs))
+      · exact F2.heldOK _ _ (H1 (by rw [hbase.lens]; exact lt_of_mem_subsOf hs))
       · exact H2 hx' hm (by rw [F1.subsOf]; exact hs)
 
-theorem inv_startRead (f : Flags) (hb : f.batch = false) (st : St) (hx : Nat) (c : Cont) (h : Inv st)
-    (hsub : ∀ s x, c = .sub s x → hx = x)
-    (hch : ∀ s rest ch, c ≠ .notify s rest ch) :
-    Inv (startRead f st hx c) := by
+theorem inv_startRead (f : Flags) (hb : f.batch = false) (hr : f.recheck = true) (st : St) (hx : Nat)
+    (k : Cont) (h : Inv st)
+    (hsub : ∀ s x, k = .sub s x → hx = x)
+    (hch : (∀ s rest ch, k ≠ .notify s rest ch) ∧ (∀ s old rest ch, k ≠ .notify2 s old rest ch)) :
+    Inv (startRead f st hx k) := by
   unfold startRead
   cases hl : lookup hx st.cache with
   | some v =>
-    exact inv_resume f hb st hx v c h.base (h.cache hx v hl) hsub
-      (fun s rest ch hc => absurd hc (hch s rest ch)) (fun s' hx' hs => Or.inl (h.held s' hx' hs))
+    exact inv_resume f hb hr st hx v k h.toBase (h.cache hx v hl) hsub
+      ⟨fun s rest ch hc => absurd hc (hch.1 s rest ch), fun s old rest ch hc => absurd hc (hch.2 s old rest ch)⟩
+      (fun s' hx' ha hs => Or.inl (h.held s' hx' ha hs))
   | none =>
     simp only
-    refine ⟨h.lens, h.cache, ?_, ?_, ?_, ?_, ?_⟩
+    have hmem : ∀ t' ∈ st.tasks ++ [({ hx := hx, countAtStart := st.notifyCount, cont := k } : Task)],
+        t' ∈ st.tasks ∨ t' = { hx := hx, countAtStart := st.notifyCount, cont := k } := by
+      intro t' ht'
+      rcases List.mem_append.mp ht' with ht' | ht'
+      · exact Or.inl ht'
+      · exact Or.inr (List.mem_singleton.mp ht')
+    refine ⟨⟨h.lens, h.lenMs, h.cache, ?_, ?_, ?_, ?_⟩, ?_⟩
     · intro t ht v hv hc
-      rcases List.mem_append.mp ht with ht | ht
+      rcases hmem t ht with ht | rfl
       · exact h.reads t ht v hv hc
-      · rw [List.mem_singleton] at ht; subst ht; cases hv
+      · cases hv
     · intro t ht
-      rcases List.mem_append.mp ht with ht | ht
+      rcases hmem t ht with ht | rfl
       · exact h.counts t ht
-      · rw [List.mem_singleton] at ht; subst ht; exact Nat.le_refl _
-    · intro s' hx' hs
-      exact HeldOK.of_tasks_append (h.held s' hx' hs)
-    · intro t ht s rest ch hc
-      rcases List.mem_append.mp ht with ht | ht
-      · exact h.nochg t ht s rest ch hc
-      · rw [List.mem_singleton] at ht; subst ht; exact absurd hc (hch s rest ch)
+      · exact Nat.le_refl _
+    · intro t ht
+      rcases hmem t ht with ht | rfl
+      · exact h.nochg t ht
+      · exact ⟨fun s rest ch hc => absurd hc (hch.1 s rest ch), fun s old rest ch hc => absurd hc (hch.2 s old rest ch)⟩
     · intro t ht s x hc
-      rcases List.mem_append.mp ht with ht | ht
+      rcases hmem t ht with ht | rfl
       · exact h.subhx t ht s x hc
-      · rw [List.mem_singleton] at ht; subst ht; exact hsub s x hc
-
+      · exact hsub s x hc
+    · intro s' hx' ha hs
+      exact (h.held s' hx' ha hs).map_tasks (fun t ht => ⟨t, List.mem_append_left _ ht, rfl, rfl⟩)
 
 theorem inv_readDo (f : Flags) (st : St) (i : Nat) (h : Inv st) : Inv (step f st (.readDo i)) := by
   simp only [step]
@@ -513,14 +1531,14 @@ theorem inv_readDo (f : Flags) (st : St) (i : Nat) (h : Inv st) : Inv (step f st
   | none => exact h
   | some j =>
     simp only
-    have hmem : ∀ t' ∈ modifyAt st.tasks j (fun t => { t with value := some (curOf st t.hx) }),
+    have hmem : ∀ t' ∈ modifyAt st.tasks j (fun t => { t with value := some (confOf st t.hx) }),
         ∃ b ∈ st.tasks, t'.hx = b.hx ∧ t'.cont = b.cont ∧ t'.countAtStart = b.countAtStart ∧
-          (t'.value = b.value ∨ t'.value = some (curOf st b.hx)) := by
+          (t'.value = b.value ∨ t'.value = some (confOf st b.hx)) := by
       intro t' ht'
       rcases mem_modifyAt ht' with hm | ⟨b, hb, rfl⟩
       · exact ⟨t', hm, rfl, rfl, rfl, Or.inl rfl⟩
       · exact ⟨b, hb, rfl, rfl, rfl, Or.inr rfl⟩
-    refine ⟨h.lens, h.cache, ?_, ?_, ?_, ?_, ?_⟩
+    refine ⟨⟨h.lens, h.lenMs, h.cache, ?_, ?_, ?_, ?_⟩, ?_⟩
     · intro t' ht' v hv hc
       obtain ⟨b, hb, e1, _, e3, e4⟩ := hmem t' ht'
       rw [e1]
@@ -530,21 +1548,20 @@ theorem inv_readDo (f : Flags) (st : St) (i : Nat) (h : Inv st) : Inv (step f st
     · intro t' ht'
       obtain ⟨b, hb, _, _, e3, _⟩ := hmem t' ht'
       rw [e3]; exact h.counts b hb
-    · intro s hx hs
-      rcases h.held s hx hs with hv | ⟨t, ht, rest, ch, hc, hm⟩
-      · exact Or.inl hv
-      · right
-        rcases mem_modifyAt_of_mem j (fun t => { t with value := some (curOf st t.hx) }) ht with h' | h'
-        · exact ⟨_, h', rest, ch, hc, hm⟩
-        · exact ⟨_, h', rest, ch, hc, hm⟩
-    · intro t' ht' s rest ch hc
+    · intro t' ht'
       obtain ⟨b, hb, _, e2, _, _⟩ := hmem t' ht'
-      exact h.nochg b hb s rest ch (by rw [← e2]; exact hc)
+      rw [e2]; exact h.nochg b hb
     · intro t' ht' s x hc
       obtain ⟨b, hb, e1, e2, _, _⟩ := hmem t' ht'
       rw [e1]; exact h.subhx b hb s x (by rw [← e2]; exact hc)
+    · intro s hx ha hs
+      refine (h.held s hx ha hs).map_tasks ?_
+      intro t ht
+      rcases mem_modifyAt_of_mem j (fun t => { t with value := some (confOf st t.hx) }) ht with h' | h'
+      · exact ⟨_, h', rfl, rfl⟩
+      · exact ⟨_, h', rfl, rfl⟩
 
-theorem inv_readFinish (f : Flags) (hb : f.batch = false) (hcc : f.checkCount = true)
+theorem inv_readFinish (f : Flags) (hb : f.batch = false) (hcc : f.checkCount = true) (hr : f.recheck = true)
     (st : St) (i : Nat) (h : Inv st) : Inv (step f st (.readFinish i)) := by
   simp only [step]
   cases nthIdx st.tasks true i with
@@ -564,28 +1581,24 @@ theorem inv_readFinish (f : Flags) (hb : f.batch = false) (hcc : f.checkCount = 
         · -- accepted
           have hne : (t.countAtStart != st.notifyCount) = false := by simp [hcnt]
           simp only [hne, Bool.false_eq_true, if_false]
-          have hv : valid st t.hx v := h.reads t htm v hval hcnt
-          apply inv_resume f hb _ t.hx v t.cont
-          · refine ⟨h.lens, ?_, ?_, ?_, ?_, ?_⟩
+          have hv : valid0 st t.hx v := h.reads t htm v hval hcnt
+          apply inv_resume f hb hr _ t.hx v t.cont
+          · refine ⟨h.lens, h.lenMs, ?_, ?_, ?_, ?_, ?_⟩
             · intro hx' v' hl
               simp only [lookup_put] at hl
               split at hl
-              · next he => cases hl; rw [he]; exact hv
+              · next he => cases hl; rw [he]; exact hv.validC
               · exact h.cache hx' v' hl
             · intro t' ht' v' hv' hc'
               exact h.reads t' (List.mem_of_mem_eraseIdx ht') v' hv' hc'
             · intro t' ht'; exact h.counts t' (List.mem_of_mem_eraseIdx ht')
             · intro t' ht'; exact h.nochg t' (List.mem_of_mem_eraseIdx ht')
             · intro t' ht'; exact h.subhx t' (List.mem_of_mem_eraseIdx ht')
-          · exact hv
+          · exact hv.validC
           · intro s x hc; exact h.subhx t htm s x hc
-          · intro s rest ch hc; exact h.nochg t htm s rest ch hc
-          · intro s' hx' hs
-            rcases h.held s' hx' hs with hh | ⟨t', ht', rest, ch, hc, hm⟩
-            · exact Or.inl (Or.inl hh)
-            · rcases mem_eraseIdx_or hj ht' with rfl | hin
-              · exact Or.inr ⟨rest, ch, hc, hm⟩
-              · exact Or.inl (Or.inr ⟨t', hin, rest, ch, hc, hm⟩)
+          · exact h.nochg t htm
+          · intro s' hx' ha hs
+            exact (h.held s' hx' ha hs).erase_task (put t.hx v st.cache) hj
         · -- a notification was processed meanwhile: read again
           have hne : (t.countAtStart != st.notifyCount) = true := by simp [hcnt]
           simp only [hne, if_true]
@@ -597,7 +1610,7 @@ theorem inv_readFinish (f : Flags) (hb : f.batch = false) (hcc : f.checkCount = 
             rcases List.mem_append.mp ht' with ht' | ht'
             · exact Or.inl (List.mem_of_mem_eraseIdx ht')
             · exact Or.inr (List.mem_singleton.mp ht')
-          refine ⟨h.lens, h.cache, ?_, ?_, ?_, ?_, ?_⟩
+          refine ⟨⟨h.lens, h.lenMs, h.cache, ?_, ?_, ?_, ?_⟩, ?_⟩
           · intro t' ht' v' hv' hc'
             rcases hmem t' ht' with hm | rfl
             · exact h.reads t' hm v' hv' hc'
@@ -606,105 +1619,115 @@ theorem inv_readFinish (f : Flags) (hb : f.batch = false) (hcc : f.checkCount = 
             rcases hmem t' ht' with hm | rfl
             · exact h.counts t' hm
             · exact Nat.le_refl _
-          · intro s' hx' hs
-            rcases h.held s' hx' hs with hh | ⟨t', ht', rest, ch, hc, hm⟩
-            · exact Or.inl hh
-            · right
-              rcases mem_eraseIdx_or hj ht' with rfl | hin
-              · exact ⟨_, List.mem_append_right _ (List.mem_singleton.mpr rfl), rest, ch, hc, hm⟩
-              · exact ⟨t', List.mem_append_left _ hin, rest, ch, hc, hm⟩
-          · intro t' ht' s rest ch hc
+          · intro t' ht'
             rcases hmem t' ht' with hm | rfl
-            · exact h.nochg t' hm s rest ch hc
-            · exact h.nochg t htm s rest ch hc
+            · exact h.nochg t' hm
+            · exact h.nochg t htm
           · intro t' ht' s x hc
             rcases hmem t' ht' with hm | rfl
             · exact h.subhx t' hm s x hc
             · exact h.subhx t htm s x hc
+          · intro s' hx' ha hs
+            refine (h.held s' hx' ha hs).map_tasks ?_
+            intro t' ht'
+            rcases mem_eraseIdx_or hj ht' with rfl | hin
+            · exact ⟨_, List.mem_append_right _ (List.mem_singleton.mpr rfl), rfl, rfl⟩
+            · exact ⟨t', List.mem_append_left _ hin, rfl, rfl⟩
 
-/-- every event preserves the invariant (any flags with `batch = false`, `checkCount = true`) -/
-theorem inv_step_flags (f : Flags) (hb : f.batch = false) (hcc : f.checkCount = true)
+/-- every event preserves the invariant (any flags with `batch = false`, `checkCount = true`,
+    `recheck = true`; both the pinned and the proposed second-loop comparison) -/
+theorem inv_step_flags (f : Flags) (hb : f.batch = false) (hcc : f.checkCount = true) (hr : f.recheck = true)
     (st : St) (ev : Ev) (h : Inv st) : Inv (step f st ev) := by
   cases ev with
   | change x => exact inv_change f st x h
-  | notify xs => exact inv_notify f hb st xs h
+  | mpChange x m => exact inv_mpChange f st x m h
+  | flip x m => exact inv_flip f st x m h
+  | advance d => exact inv_advance f st d h
+  | backup => exact inv_backup f st h
+  | reorgSignal => exact inv_reorgSignal f st h
+  | notify ht xs => exact inv_notify f hb hr st ht xs h
   | subscribe s x =>
-    exact inv_startRead f hb st x (.sub s x) h (fun s' x' hc => by cases hc; rfl)
-      (fun s' rest ch hc => by cases hc)
+    exact inv_startRead f hb hr st x (.sub s x) h (fun s' x' hc => by cases hc; rfl)
+      ⟨fun s' rest ch hc => (by cases hc), fun s' old rest ch hc => (by cases hc)⟩
+  | unsubscribe s x => exact inv_unsubscribe f st s x h
+  | closeSession s => exact inv_closeSession f st s h
+  | subscribeHeaders s => exact inv_subscribeHeaders f st s h
   | getHistory s x =>
-    exact inv_startRead f hb st x .query h (fun s' x' hc => by cases hc)
-      (fun s' rest ch hc => by cases hc)
+    exact inv_startRead f hb hr st x .query h (fun s' x' hc => by cases hc)
+      ⟨fun s' rest ch hc => (by cases hc), fun s' old rest ch hc => (by cases hc)⟩
+  | evict x => exact inv_evict f st x h
   | readDo i => exact inv_readDo f st i h
-  | readFinish i => exact inv_readFinish f hb hcc st i h
+  | readFinish i => exact inv_readFinish f hb hcc hr st i h
+  | hdrDo i => exact inv_hdrDo f st i h
+  | hdrFinish i => exact inv_hdrFinish f hb hr st i h
 
 theorem inv_step (st : St) (ev : Ev) (h : Inv st) : Inv (step {} st ev) :=
-  inv_step_flags {} rfl rfl st ev h
+  inv_step_flags {} rfl rfl rfl st ev h
 
-theorem inv_run (st : St) (evs : List Ev) (h : Inv st) : Inv (run {} st evs) := by
+theorem inv_run_flags (f : Flags) (hb : f.batch = false) (hcc : f.checkCount = true) (hr : f.recheck = true)
+    (st : St) (evs : List Ev) (h : Inv st) : Inv (run f st evs) := by
   induction evs generalizing st with
   | nil => exact h
-  | cons ev evs ih => exact ih (step {} st ev) (inv_step st ev h)
+  | cons ev evs ih => exact ih (step f st ev) (inv_step_flags f hb hcc hr st ev h)
 
-/-- at rest (nothing carried, no read in flight) every subscriber holds the current status and
-    every cached history is current -/
-theorem quiescent_current (st : St) (h : Inv st) (hc : st.carrier = []) (ht : st.tasks = []) :
-    (∀ s hx, hx ∈ subsOf st s → heldOf st s hx = some (curOf st hx)) ∧
-    (∀ hx v, lookup hx st.cache = some v → v = curOf st hx) := by
-  have hvalid : ∀ hx v, valid st hx v → v = curOf st hx := by
-    intro hx v hv
-    rcases hv with hv | hv
-    · exact hv
-    · rw [hc] at hv; simp at hv
+theorem inv_run (st : St) (evs : List Ev) (h : Inv st) : Inv (run {} st evs) :=
+  inv_run_flags {} rfl rfl rfl st evs h
+
+/-- **Model quiescence.**  The environment owes nothing and nothing is in flight:
+  * `carrier = []`    every touched set handed over by the block processor / the mempool refresh
+                      has been passed to `_notify_sessions` (C20_complete + C07carrier_consecutive +
+                      C08_touched_handed_over: once the index is at the daemon's height and the
+                      mempool has been refreshed at that height, Notifications holds nothing back);
+  * `flipped = []`    every parent flip has been followed by a `_notify_sessions` call with
+                      `height_changed = true` (the chain change that caused it has been notified);
+  * `lost = []`, `suppressed = []`   no notification was lost by `_refresh_hsub_results` raising /
+                      by the stale-copy comparison (empty for ever under the proposed fix: `C07_fixed`);
+  * `hreads = []`, `tasks = []`     no `_notify_sessions` call is suspended in the header read, no
+                      history read and no `_notify_inner` is in flight ("notifications delivered");
+  * `tipDone = true`  since the last change of the DB's chain a `_notify_sessions` call with
+                      `height_changed = true` and a height ≥ the DB's was started, at a moment when
+                      no header read aiming elsewhere was in flight (C20_complete: the call for the
+                      height both sources last reported; `height_changed` by `notified_height` /
+                      the reorg counter, F4). -/
+structure Quiet (st : St) : Prop where
+  carrier : st.carrier = []
+  flipped : st.flipped = []
+  lost : st.lost = []
+  suppressed : st.suppressed = []
+  hreads : st.hreads = []
+  tasks : st.tasks = []
+  tipDone : st.tipDone = true
+
+/-- at rest every connected subscriber holds the current status and every cached history is current -/
+theorem quiescent_current (st : St) (h : Inv st) (hq : Quiet st) :
+    (∀ s hx, aliveOf st s = true → hx ∈ subsOf st s → heldOf st s hx = some (curOf st hx)) ∧
+    (∀ hx v, lookup hx st.cache = some v → v = confOf st hx) := by
+  have hO : ∀ hx, ¬ Owed st hx := by
+    intro hx ho
+    rcases ho with ho | ho | ho | ⟨r, hr, _⟩
+    · rw [hq.carrier] at ho; simp at ho
+    · rw [hq.lost] at ho; simp at ho
+    · rw [hq.suppressed] at ho; simp at ho
+    · rw [hq.hreads] at hr; simp at hr
+  have hOF : ∀ hx, ¬ OwedF st hx := by
+    intro hx ho
+    rcases ho with ho | ⟨r, hr, _⟩
+    · rw [hq.flipped] at ho; simp at ho
+    · rw [hq.hreads] at hr; simp at hr
   constructor
-  · intro s hx hs
-    rcases h.held s hx hs with ⟨v, h1, h2⟩ | ⟨t, htm, _⟩
-    · rw [h1, hvalid hx v h2]
-    · rw [ht] at htm; simp at htm
+  · intro s hx ha hs
+    rcases h.held s hx ha hs with ⟨t, htm, _⟩ | ho | ⟨c, m, h1, h2, h3⟩
+    · rw [hq.tasks] at htm; simp at htm
+    · exact absurd ho (hO hx)
+    · rw [h1, curOf, h2]
+      rcases h3 with ⟨h3, h4⟩ | ⟨_, h4 | h4 | ⟨t, htm, _⟩⟩
+      · rw [h3, h4]
+      · rw [h4]
+      · exact absurd h4 (hOF hx)
+      · rw [hq.tasks] at htm; simp at htm
   · intro hx v hl
-    exact hvalid hx v (h.cache hx v hl)
-
-/-! ### evaluating concrete runs in the kernel (`mergeSort` is by well-founded recursion) -/
-
-/-- `step`, with the sort of `_notify_inner` skipped -/
-def stepS (f : Flags) (st : St) : Ev → St
-  | .notify xs =>
-    (List.range st.subs.length).foldl (fun acc s =>
-      notifyGo f acc s (((xs.filter st.carrier.contains).filter (subsOf acc s).contains)).eraseDups [])
-      { st with
-        carrier := st.carrier.filter (fun x => !xs.contains x),
-        notifyCount := st.notifyCount + 1,
-        cache := st.cache.filter (fun e => !((xs.filter st.carrier.contains).contains e.1)) }
-  | ev => step f st ev
-
-/-- the touched lists of all `notify` events are ascending -/
-def sortedEvs : List Ev → Bool
-  | [] => true
-  | .notify xs :: r => decide (xs.Pairwise (· ≤ ·)) && sortedEvs r
-  | _ :: r => sortedEvs r
-
-theorem stepS_eq (f : Flags) (st : St) (xs : List Nat) (h : xs.Pairwise (· ≤ ·)) :
-    step f st (.notify xs) = stepS f st (.notify xs) := by
-  simp only [step, stepS]
-  congr 1
-  funext acc s
-  rw [List.mergeSort_of_pairwise]
-  apply List.Pairwise.filter
-  apply List.Pairwise.filter
-  exact h.imp (fun hab => by simpa using hab)
-
-theorem run_eq_foldl_stepS (f : Flags) (st : St) (evs : List Ev) (h : sortedEvs evs = true) :
-    run f st evs = evs.foldl (stepS f) st := by
-  induction evs generalizing st with
-  | nil => rfl
-  | cons ev evs ih =>
-    cases ev with
-    | notify xs =>
-      simp only [sortedEvs, Bool.and_eq_true, decide_eq_true_eq] at h
-      rw [run, List.foldl_cons, List.foldl_cons, stepS_eq f st xs h.1]
-      exact ih _ h.2
-    | _ =>
-      simp only [sortedEvs] at h
-      rw [run, List.foldl_cons, List.foldl_cons]
-      exact ih _ h
+    rcases h.cache hx v hl with hv | hv
+    · exact hv
+    · exact absurd hv (hO hx)
 
 end EV.System
